@@ -9,7 +9,8 @@ import Proofs.RoundTrip
   `priorFitsWith`; (3) the struct loop over data of `S` read by the fields of
   `S'` (`evolve_loop`, generic in the per-field projection); (4) the evolved
   versions of the wrapper round trips (pointer, slices, maps, repeated forms);
-  (5) assembly by mutual structural induction; (6) rename invisibility.
+  (5) assembly by mutual structural induction; (6) rename invisibility;
+  (7) what `project` says position by position, and its consistency with C01.
 -/
 namespace Evolve
 open RT
@@ -252,8 +253,8 @@ theorem priorFitsWith_zeros (look : Nat → Ty → Option Val) :
   | nil => simp [zeros, priorFitsWith]
   | cons f' fs' ih =>
     obtain ⟨i', n', t'⟩ := f'
-    simp only [zeros, priorFitsWith, implies_true, true_and]
-    exact ih
+    simp only [zeros, priorFitsWith]
+    exact ⟨fun _ => Or.inl trivial, ih⟩
 
 theorem projectWith_split (look : Nat → Ty → Option Val) (f' : Nat × String × Ty) (suf' : Fields) (a : Val)
     (asuf : List Val) :
@@ -279,7 +280,8 @@ theorem projectWith_split (look : Nat → Ty → Option Val) (f' : Nat × String
 theorem priorFitsWith_split (look : Nat → Ty → Option Val) (f' : Nat × String × Ty) (suf' : Fields) :
     ∀ (pre' : Fields) (acc : List Val), priorFitsWith look (pre' ++ f' :: suf') acc →
       ∃ apre a asuf, acc = apre ++ a :: asuf ∧ apre.length = pre'.length ∧
-        priorFitsWith look pre' apre ∧ ((look f'.1 f'.2.2).isSome = true → a = f'.2.2.zero) ∧
+        priorFitsWith look pre' apre ∧
+        ((look f'.1 f'.2.2).isSome = true → a = f'.2.2.zero ∨ f'.2.2.overwrites = true) ∧
         priorFitsWith look suf' asuf := by
   intro pre'
   induction pre' with
@@ -304,7 +306,7 @@ theorem priorFitsWith_split (look : Nat → Ty → Option Val) (f' : Nat × Stri
       exact ⟨h.1, h1⟩
 
 theorem priorFitsWith_join (look : Nat → Ty → Option Val) (f' : Nat × String × Ty) (suf' : Fields) (a : Val)
-    (asuf : List Val) (ha : (look f'.1 f'.2.2).isSome = true → a = f'.2.2.zero)
+    (asuf : List Val) (ha : (look f'.1 f'.2.2).isSome = true → a = f'.2.2.zero ∨ f'.2.2.overwrites = true)
     (hsuf : priorFitsWith look suf' asuf) :
     ∀ (pre' : Fields) (apre : List Val), priorFitsWith look pre' apre →
       priorFitsWith look (pre' ++ f' :: suf') (apre ++ a :: asuf) := by
@@ -359,6 +361,119 @@ theorem fieldsProj_eq : ∀ (gs : Fields) (vs : List Val) (i' : Nat) (t' : Ty),
 theorem fieldsProj_eq' (gs : Fields) (vs : List Val) : fieldsProj gs vs = lookupWith Ty.proj gs vs := by
   funext i' t'; exact fieldsProj_eq gs vs i' t'
 
+
+/-! ### 2b. overwriting codecs: the prior value is irrelevant -/
+
+def ptrPrior (u : Ty) (p : Val) : Val :=
+  match p with
+  | .ptr (some x) => x
+  | _ => u.zero
+
+def ptrWrap : Res (Val × Nat) → Res (Val × Nat)
+  | .ok (v, n) => .ok (.ptr (some v), n) | .err => .err | .panic => .panic | .hang => .hang
+
+theorem read_ptr_eq (u : Ty) (wt : WT) (d : Bytes) (p : Val) :
+    (Ty.ptr u).read wt d p = ptrWrap (u.read wt d (ptrPrior u p)) := by
+  cases p with
+  | ptr o =>
+    cases o with
+    | none =>
+      simp only [Ty.read, ptrPrior]
+      generalize u.read wt d u.zero = r
+      cases r with
+      | ok q => obtain ⟨a, n⟩ := q; rfl
+      | _ => rfl
+    | some x =>
+      simp only [Ty.read, ptrPrior]
+      generalize u.read wt d x = r
+      cases r with
+      | ok q => obtain ⟨a, n⟩ := q; rfl
+      | _ => rfl
+  | _ =>
+    simp only [Ty.read, ptrPrior]
+    generalize u.read wt d u.zero = r
+    cases r with
+    | ok q => obtain ⟨a, n⟩ := q; rfl
+    | _ => rfl
+
+/-- an overwriting codec, called with its own wire type, ignores the prior value. -/
+theorem read_prior_irrel : (t : Ty) → t.overwrites = true → ∀ (d : Bytes) (a b : Val),
+    t.read t.wt d a = t.read t.wt d b
+  | .ptr u, h, d, a, b => by
+      simp only [Ty.overwrites] at h
+      simp only [Ty.wt, read_ptr_eq]
+      rw [read_prior_irrel u h d (ptrPrior u a) (ptrPrior u b)]
+  | .lslice u, _, d, a, b => by
+      have hw : ¬ (WT.slice = WT.len) := by decide
+      simp only [Ty.read, Ty.wt, hw, ↓reduceIte]
+  | .bool, _, d, a, b | .int _, _, d, a, b | .uint _, _, d, a, b | .flat _, _, d, a, b
+  | .f32, _, d, a, b | .f64, _, d, a, b | .str _, _, d, a, b | .bytes, _, d, a, b | .time _, _, d, a, b
+  | .vslice _, _, d, a, b | .fslice _, _, d, a, b => by
+      simp only [Ty.read]
+  | .pslice _, h, _, _, _ | .struct _ _, h, _, _, _ | .map _ _ _, h, _, _, _ => by
+      simp [Ty.overwrites] at h
+
+theorem overwrites_not_rep (t : Ty) (h : t.overwrites = true) : t.isProtoRep = false := by
+  cases t <;> simp_all [Ty.overwrites, Ty.isProtoRep]
+
+theorem fieldRead_prior_irrel (t : Ty) (h : t.overwrites = true) (body : Bytes) (a b : Val) :
+    fieldRead t t.wt body a = fieldRead t t.wt body b := by
+  unfold fieldRead
+  by_cases hw : t.wt = .len
+  · simp only [hw, ↓reduceIte]
+    cases readU body with
+    | none => rfl
+    | some q =>
+      obtain ⟨l, n⟩ := q
+      simp only
+      have := read_prior_irrel t h ((body.drop n).take l) a b
+      rw [hw] at this
+      rw [this]
+  · simp only [hw, ↓reduceIte]
+    exact read_prior_irrel t h body a b
+
+/-- the first iteration decides: two start states on which the reader agrees for
+the first field give the same loop. -/
+theorem structLoop_first_congr (rd : Nat → WT → Bytes → List Val → Res (List Val × Nat))
+    (fuel : Nat) (wt : WT) (i : Nat) (hi : i < 2 ^ 61) (body : Bytes) (off : Nat) (acc1 acc2 : List Val)
+    (h : rd i wt body acc1 = rd i wt body acc2) :
+    structLoop rd fuel (appendTag wt i ++ body) off acc1 = structLoop rd fuel (appendTag wt i ++ body) off acc2 := by
+  cases fuel with
+  | zero => rfl
+  | succ f =>
+    have hpos := appendTag_len_pos wt i
+    have hne : (appendTag wt i ++ body).isEmpty = false := by
+      cases h : appendTag wt i ++ body with
+      | nil =>
+        have := congrArg List.length h
+        simp only [List.length_append, List.length_nil] at this; omega
+      | cons _ _ => rfl
+    rw [structLoop, structLoop]
+    simp only [hne, Bool.false_eq_true, ↓reduceIte, tag_roundtrip wt i hi body, drop_append_len _ _ _ rfl, h]
+
+/-- a field whose target codec overwrites may start from any prior value. -/
+theorem start_irrelevant (t t' : Ty) (hwf : t.wf) (hs : Ty.rtShape true t) (hrep : t.isProtoRep = false)
+    (hwt : t'.wt = t.wt) (hov : t'.overwrites = true)
+    (i : Nat) (hi : i < 2 ^ 61) (v : Val) (hty : t.hasTy v) (hom : v.omit = false)
+    (rd : Nat → WT → Bytes → List Val → Res (List Val × Nat)) (put : Val → List Val)
+    (hrd : ∀ wt body a, rd i wt body (put a) = Res.mapFst put (fieldRead t' wt body a))
+    (a : Val) (fuel : Nat) (rest : Bytes) (off : Nat) :
+    structLoop rd fuel (t.app v (appendTag t.wt i) ++ rest) off (put a)
+      = structLoop rd fuel (t.app v (appendTag t.wt i) ++ rest) off (put t'.zero) := by
+  have hs' := shape_false_of_true t hrep hs
+  have hp := present_of_shape t hs' v hty (ne_ptr_none_of_not_omit v hom)
+  have hr := deref_not_rep t hs'
+  have hstep : ∀ body, rd i t.wt body (put a) = rd i t.wt body (put t'.zero) := by
+    intro body
+    rw [hrd, hrd, ← hwt, fieldRead_prior_irrel t' hov body a t'.zero]
+  by_cases hl : t.wt = .len
+  · rw [app_frame_len t v _ hwf hty hp hl hr (appendTag_ne_nil _ _)]
+    simp only [List.append_assoc]
+    exact structLoop_first_congr rd fuel t.wt i hi _ off _ _ (hstep _)
+  · rw [app_frame_other t v _ hwf hty hp hl]
+    simp only [List.append_assoc]
+    exact structLoop_first_congr rd fuel t.wt i hi _ off _ _ (hstep _)
+
 /-! ### 3. the struct loop of the target over data of the source -/
 
 /-- Decoding one field written with codec `t` by a target field with codec `t'`:
@@ -389,6 +504,21 @@ theorem skipField_of_shape (t : Ty) (hwf : t.wf) (hs : Ty.rtShape true t) : Skip
   fun i v hi hty hom hsz rd acc hrd fuel rest off hf =>
     skip_unknown_field t hwf hs v hty hom i hi hsz rd acc hrd fuel rest off hf
 
+/-- the loop over a field of the source read by an overwriting target field does
+not depend on what the target field held. -/
+def StartIrrel (t t' : Ty) : Prop :=
+  ∀ (i : Nat) (v : Val), i < 2 ^ 61 → t.hasTy v → v.omit = false →
+    ∀ (rd : Nat → WT → Bytes → List Val → Res (List Val × Nat)) (put : Val → List Val),
+      (∀ wt body a, rd i wt body (put a) = Res.mapFst put (fieldRead t' wt body a)) →
+      ∀ (a : Val) (fuel : Nat) (rest : Bytes) (off : Nat),
+        structLoop rd fuel (t.app v (appendTag t.wt i) ++ rest) off (put a)
+          = structLoop rd fuel (t.app v (appendTag t.wt i) ++ rest) off (put t'.zero)
+
+theorem startIrrel_of (t t' : Ty) (hwf : t.wf) (hs : Ty.rtShape true t) (hrep : t.isProtoRep = false)
+    (hwt : t'.wt = t.wt) (hov : t'.overwrites = true) : StartIrrel t t' :=
+  fun i v hi hty hom rd put hrd a fuel rest off =>
+    start_irrelevant t t' hwf hs hrep hwt hov i hi v hty hom rd put hrd a fuel rest off
+
 theorem lookupWith_omit (pr : Ty → Ty → Val → Val) (f : Nat × String × Ty) (gs : Fields) (v : Val)
     (vs : List Val) (ho : v.omit = true) :
     lookupWith pr (f :: gs) (v :: vs) = lookupWith pr gs vs := by
@@ -418,6 +548,7 @@ reader — then its codec pair decodes it (`EvField`) — or unknown and skipped
 theorem evolve_loop (pr : Ty → Ty → Val → Val) (fs' : Fields) (hnd' : (fs'.map (·.1)).Nodup) :
     ∀ (gs : Fields) (vs : List Val), (gs.map (·.1)).Nodup → (∀ f ∈ gs, f.1 < 2 ^ 61) →
       (∀ f ∈ gs, ∀ f' ∈ fs', f.1 = f'.1 → EvField f.2.2 f'.2.2 (pr f.2.2 f'.2.2)) →
+      (∀ f ∈ gs, ∀ f' ∈ fs', f.1 = f'.1 → f'.2.2.overwrites = true → StartIrrel f.2.2 f'.2.2) →
       (∀ f ∈ gs, f.1 ∉ fs'.map (·.1) → SkipField f.2.2) →
       fieldsHaveTy gs vs →
       ∀ (acc : List Val), priorFitsWith (lookupWith pr gs vs) fs' acc →
@@ -427,7 +558,7 @@ theorem evolve_loop (pr : Ty → Ty → Val → Val) (fs' : Fields) (hnd' : (fs'
   intro gs
   induction gs with
   | nil =>
-    intro vs _ _ _ _ hty acc hfit fuel off hf _
+    intro vs _ _ _ _ _ hty acc hfit fuel off hf _
     cases vs with
     | nil =>
       simp only [fieldsApp, List.length_nil, Nat.add_zero]
@@ -436,7 +567,7 @@ theorem evolve_loop (pr : Ty → Ty → Val → Val) (fs' : Fields) (hnd' : (fs'
     | cons _ _ => simp [fieldsHaveTy] at hty
   | cons f gs ih =>
     obtain ⟨i, nm, t⟩ := f
-    intro vs hnd hidx hev hsk hty acc hfit fuel off hf hsz
+    intro vs hnd hidx hev hirr hsk hty acc hfit fuel off hf hsz
     cases vs with
     | nil => simp [fieldsHaveTy] at hty
     | cons v vs =>
@@ -449,6 +580,8 @@ theorem evolve_loop (pr : Ty → Ty → Val → Val) (fs' : Fields) (hnd' : (fs'
       have hidx2 : ∀ f ∈ gs, f.1 < 2 ^ 61 := fun f hf => hidx f (by simp [hf])
       have hev2 : ∀ f ∈ gs, ∀ f' ∈ fs', f.1 = f'.1 → EvField f.2.2 f'.2.2 (pr f.2.2 f'.2.2) :=
         fun f hf => hev f (by simp [hf])
+      have hirr2 : ∀ f ∈ gs, ∀ f' ∈ fs', f.1 = f'.1 → f'.2.2.overwrites = true → StartIrrel f.2.2 f'.2.2 :=
+        fun f hf => hirr f (by simp [hf])
       have hsk2 : ∀ f ∈ gs, f.1 ∉ fs'.map (·.1) → SkipField f.2.2 := fun f hf => hsk f (by simp [hf])
       have hi : i < 2 ^ 61 := hidx (i, nm, t) (by simp)
       cases ho : v.omit with
@@ -456,7 +589,7 @@ theorem evolve_loop (pr : Ty → Ty → Val → Val) (fs' : Fields) (hnd' : (fs'
         have e1 : fieldsApp ((i, nm, t) :: gs) (v :: vs) = fieldsApp gs vs := by simp [fieldsApp, ho]
         rw [e1] at hf hsz ⊢
         rw [lookupWith_omit pr _ gs v vs ho] at hfit ⊢
-        exact ih vs hnd2 hidx2 hev2 hsk2 htr acc hfit fuel off hf hsz
+        exact ih vs hnd2 hidx2 hev2 hirr2 hsk2 htr acc hfit fuel off hf hsz
       | false =>
         have e1 : fieldsApp ((i, nm, t) :: gs) (v :: vs)
             = t.app v (appendTag t.wt i) ++ fieldsApp gs vs := by simp [fieldsApp, ho]
@@ -475,14 +608,27 @@ theorem evolve_loop (pr : Ty → Ty → Val → Val) (fs' : Fields) (hnd' : (fs'
             priorFitsWith_split _ (i', nm', t') suf' pre' acc hfit
           have hlook : lookupWith pr ((i', nm, t) :: gs) (v :: vs) i' t' = some (pr t t' v) := by
             simp [lookupWith, ho]
-          have ha : a = t'.zero := hfa (by simp only [hlook]; rfl)
-          subst ha
+          have ha := hfa (by simp only [hlook]; rfl)
           have hE : EvField t t' (pr t t') := hev (i', nm, t) (by simp) (i', nm', t') hf' rfl
+          have hrd : ∀ wt body a,
+              (fun idx wt body acc => readField (pre' ++ (i', nm', t') :: suf') acc idx wt body) i' wt body
+                  ((fun x => apre ++ x :: asuf) a)
+                = Res.mapFst (fun x => apre ++ x :: asuf) (fieldRead t' wt body a) :=
+            fun wt body a => readField_at pre' i' nm' t' suf' hnp apre hl a asuf wt body
+          have hstart : structLoop
+                (fun idx wt body acc => readField (pre' ++ (i', nm', t') :: suf') acc idx wt body) fuel
+                (t.app v (appendTag t.wt i') ++ fieldsApp gs vs) off (apre ++ a :: asuf)
+              = structLoop
+                (fun idx wt body acc => readField (pre' ++ (i', nm', t') :: suf') acc idx wt body) fuel
+                (t.app v (appendTag t.wt i') ++ fieldsApp gs vs) off (apre ++ t'.zero :: asuf) := by
+            rcases ha with rfl | hov
+            · rfl
+            · exact hirr (i', nm, t) (by simp) (i', nm', t') hf' rfl hov i' v hi htv ho _
+                (fun x => apre ++ x :: asuf) hrd a fuel _ off
+          rw [hstart]
           have hrt := hE i' v hi htv ho (by omega)
             (fun idx wt body acc => readField (pre' ++ (i', nm', t') :: suf') acc idx wt body)
-            (fun x => apre ++ x :: asuf)
-            (fun wt body a => readField_at pre' i' nm' t' suf' hnp apre hl a asuf wt body)
-            fuel (fieldsApp gs vs) off hf
+            (fun x => apre ++ x :: asuf) hrd fuel (fieldsApp gs vs) off hf
           rw [hrt]
           -- the looks of the remaining fields agree away from position `i'`
           have hagree : ∀ g' ∈ pre' ++ suf', lookupWith pr ((i', nm, t) :: gs) (v :: vs) g'.1 g'.2.2
@@ -501,7 +647,7 @@ theorem evolve_loop (pr : Ty → Ty → Val → Val) (fs' : Fields) (hnd' : (fs'
             · exact priorFitsWith_congr _ _ suf' asuf (fun g' hg' => hagree g' (by simp [hg'])) hfs
             · exact priorFitsWith_congr _ _ pre' apre (fun g' hg' => hagree g' (by simp [hg'])) hfp
           simp only [List.length_append] at hf
-          rw [ih vs hnd2 hidx2 hev2 hsk2 htr _ hfit' fuel _ (by omega) (by omega)]
+          rw [ih vs hnd2 hidx2 hev2 hirr2 hsk2 htr _ hfit' fuel _ (by omega) (by omega)]
           rw [projectWith_split _ _ _ _ _ pre' apre hl, projectWith_split _ _ _ _ _ pre' apre hl]
           simp only [hlook, hnone, Option.getD_some, Option.getD_none]
           rw [projectWith_congr _ _ pre' apre (fun g' hg' => hagree g' (by simp [hg'])),
@@ -518,9 +664,1430 @@ theorem evolve_loop (pr : Ty → Ty → Val → Val) (fs' : Fields) (hnd' : (fs'
             intro e
             exact hin (e ▸ List.mem_map.mpr ⟨g', hg', rfl⟩)
           simp only [List.length_append] at hf
-          rw [ih vs hnd2 hidx2 hev2 hsk2 htr acc (priorFitsWith_congr _ _ fs' acc hagree hfit) fuel _
+          rw [ih vs hnd2 hidx2 hev2 hirr2 hsk2 htr acc (priorFitsWith_congr _ _ fs' acc hagree hfit) fuel _
             (by omega) (by omega)]
           rw [projectWith_congr _ _ fs' acc hagree]
           simp only [List.length_append, Nat.add_assoc]
+
+/-! ### 4. the relation: what it preserves -/
+
+theorem evolves_ptr (u t' : Ty) (h : (Ty.ptr u).Evolves t') : ∃ u', t' = .ptr u' ∧ u.Evolves u' := by
+  cases t' with
+  | ptr u' => exact ⟨u', rfl, by simpa only [Ty.Evolves] using h⟩
+  | _ => simp [Ty.Evolves] at h
+
+theorem evolves_lslice (u t' : Ty) (h : (Ty.lslice u).Evolves t') : ∃ u', t' = .lslice u' ∧ u.Evolves u' := by
+  cases t' with
+  | lslice u' => exact ⟨u', rfl, by simpa only [Ty.Evolves] using h⟩
+  | _ => simp [Ty.Evolves] at h
+
+theorem evolves_pslice (u t' : Ty) (h : (Ty.pslice u).Evolves t') : ∃ u', t' = .pslice u' ∧ u.Evolves u' := by
+  cases t' with
+  | pslice u' => exact ⟨u', rfl, by simpa only [Ty.Evolves] using h⟩
+  | _ => simp [Ty.Evolves] at h
+
+theorem evolves_struct (n : String) (fs : Fields) (t' : Ty) (h : (Ty.struct n fs).Evolves t') :
+    ∃ n' fs', t' = .struct n' fs' ∧ FieldsEvolve fs fs' := by
+  cases t' with
+  | struct n' fs' => exact ⟨n', fs', rfl, by simpa only [Ty.Evolves, FieldsEvolve] using h⟩
+  | _ => simp [Ty.Evolves] at h
+
+theorem evolves_map (k v : Ty) (p : Bool) (t' : Ty) (h : (Ty.map k v p).Evolves t') :
+    ∃ v', t' = .map k v' p ∧ v.Evolves v' := by
+  cases t' with
+  | map k' v' p' =>
+    simp only [Ty.Evolves] at h
+    obtain ⟨rfl, rfl, h⟩ := h
+    exact ⟨v', rfl, h⟩
+  | _ => simp [Ty.Evolves] at h
+
+theorem fieldEvolves_mem : ∀ (fs : Fields) (i' : Nat) (t' : Ty), fieldEvolves fs i' t' →
+    ∀ f ∈ fs, f.1 = i' → f.2.2.Evolves t' := by
+  intro fs
+  induction fs with
+  | nil => intro i' t' _ f hf; simp at hf
+  | cons g fs ih =>
+    obtain ⟨j, nj, tj⟩ := g
+    intro i' t' h f hf he
+    simp only [fieldEvolves] at h
+    rcases List.mem_cons.mp hf with rfl | hf
+    · exact h.1 he
+    · exact ih i' t' h.2 f hf he
+
+theorem evolves_isPtr (t t' : Ty) (h : t.Evolves t') : t'.isPtr = t.isPtr := by
+  cases t <;> cases t' <;> simp_all [Ty.Evolves, Ty.isPtr]
+
+theorem evolves_isProtoRep (t t' : Ty) (h : t.Evolves t') : t'.isProtoRep = t.isProtoRep := by
+  cases t with
+  | map k v p => obtain ⟨v', rfl, _⟩ := evolves_map k v p t' h; cases p <;> rfl
+  | _ => cases t' <;> simp_all [Ty.Evolves, Ty.isProtoRep]
+
+/-- an evolved codec has the wire type of the original. -/
+theorem evolves_wt : (t t' : Ty) → t.Evolves t' → t'.wt = t.wt
+  | .ptr u, t', h => by
+      obtain ⟨u', rfl, h'⟩ := evolves_ptr u t' h
+      simp only [Ty.wt]; exact evolves_wt u u' h'
+  | .lslice u, t', h => by obtain ⟨u', rfl, _⟩ := evolves_lslice u t' h; rfl
+  | .pslice u, t', h => by obtain ⟨u', rfl, _⟩ := evolves_pslice u t' h; rfl
+  | .struct n fs, t', h => by obtain ⟨n', fs', rfl, _⟩ := evolves_struct n fs t' h; rfl
+  | .map k v p, t', h => by obtain ⟨v', rfl, _⟩ := evolves_map k v p t' h; cases p <;> rfl
+  | .bool, t', h | .int _, t', h | .uint _, t', h | .flat _, t', h | .f32, t', h | .f64, t', h
+  | .str _, t', h | .bytes, t', h | .time _, t', h | .vslice _, t', h | .fslice _, t', h => by
+      simp only [Ty.Evolves] at h
+      subst h; rfl
+
+/-- reading no bytes into the zero value gives the zero value (`RT.read_nil`
+without the round-trip shape: only the top constructor matters). -/
+theorem read_nil' (t : Ty) (hwf : t.wf) (hr : t.isProtoRep = false) (hp : t.isPtr = false) :
+    t.read t.wt [] t.zero = .ok (t.zero, 0) := by
+  cases t with
+  | bool => simp [Ty.read, Ty.zero, readVarUint, uvarintAux]
+  | int w =>
+    simp only [Ty.wf] at hwf
+    rcases hwf with rfl | rfl | rfl | rfl <;> simp [Ty.read, Ty.zero, readVarUint, uvarintAux, zagZig, wrapS]
+  | uint w => simp [Ty.read, Ty.zero, readVarUint, uvarintAux, wrapU]
+  | flat w =>
+    simp only [Ty.wf] at hwf
+    rcases hwf with rfl | rfl | rfl | rfl <;> simp [Ty.read, Ty.zero, readVarUint, uvarintAux, wrapS]
+  | f32 => simp [Ty.read, Ty.zero]
+  | f64 => simp [Ty.read, Ty.zero]
+  | str b => simp [Ty.read, Ty.zero]
+  | bytes => simp [Ty.read, Ty.zero]
+  | time c => simp [Ty.read, Ty.zero]
+  | ptr u => simp [Ty.isPtr] at hp
+  | vslice u => simp [Ty.read, Ty.zero, countVarints, readN]
+  | fslice u =>
+    simp only [Ty.wf] at hwf
+    rcases hwf with rfl | rfl <;> simp [Ty.read, Ty.zero, Ty.size, readN]
+  | lslice u => simp [Ty.read, Ty.zero, Ty.wt, readVarUint, uvarintAux, elemLoop]
+  | pslice u => simp [Ty.isProtoRep] at hr
+  | struct n fs => simp [Ty.read, Ty.zero, structLoop]
+  | map k v p =>
+    cases p with
+    | true => simp [Ty.isProtoRep] at hr
+    | false => simp [Ty.read, Ty.zero]
+
+/-! ### 5. evolved wrappers: pointer, slices, structs -/
+
+/-- Decoding with the evolved codec `t'` a value written with `t`, in value
+position (`RT.RTVal` with two codecs): exact for the length-delimited kinds,
+prefix-stable for the self-delimiting kinds; the reader is called with the wire
+type found in the data (`t.wt`) and the target's zero value. -/
+def EvVal (t t' : Ty) : Prop :=
+  ∀ v, t.hasTy v → v ≠ .ptr none → v ≠ .map none → (t.app v []).length < 2 ^ 64 →
+    (t.wt = .len → t'.read .len (t.app v []) t'.zero = .ok (t.proj t' v, (t.app v []).length)) ∧
+    (t.wt ≠ .len → ∀ rest, t'.read t.wt (t.app v [] ++ rest) t'.zero = .ok (t.proj t' v, (t.app v []).length))
+
+theorem ev_ptr (u u' : Ty) (hu : u.isPtr = false) (hm : u.isMap = false) (h : EvVal u u') :
+    EvVal (.ptr u) (.ptr u') := by
+  intro v hty hv _ hsz
+  cases v with
+  | ptr o =>
+    cases o with
+    | none => exact absurd rfl hv
+    | some x =>
+      simp only [Ty.hasTy] at hty
+      have hx : x ≠ .ptr none := ne_ptr_none_of_not_ptr u hu x hty
+      simp only [Ty.app] at hsz
+      have := h x hty hx (ne_map_none_of_not_map u hm x hty) hsz
+      simp only [Ty.wt, Ty.app, Ty.zero, Ty.proj]
+      refine ⟨fun hl => ?_, fun hl rest => ?_⟩
+      · simp only [Ty.read, this.1 hl]
+      · simp only [Ty.read, this.2 hl rest]
+  | _ => simp [Ty.hasTy] at hty
+
+/-- a single-frame field (every codec but the two repeated forms). -/
+theorem evField_of_val (t t' : Ty) (hwf : t.wf) (hs : Ty.rtShape false t) (h : EvVal t t') :
+    EvField t t' (t.proj t') := by
+  intro i v hi hty hom hsz rd put hrd fuel rest off hf
+  have hv := ne_ptr_none_of_not_omit v hom
+  have hv2 := ne_map_none_of_not_omit v hom
+  have hpres := present_of_shape t hs v hty hv
+  have htag := appendTag_ne_nil t.wt i
+  by_cases hw : t.wt = .len
+  · have hE := app_frame_len t v (appendTag t.wt i) hwf hty hpres hw (deref_not_rep t hs) htag
+    rw [hE] at hsz hf ⊢
+    generalize hB : t.app v [] = B at hsz hf h ⊢
+    simp only [List.length_append] at hsz
+    have hBl : B.length < 2 ^ 64 := by omega
+    have hread := (h v hty hv hv2 (by rw [hB]; exact hBl)).1 hw
+    rw [hB] at hread
+    simp only [List.append_assoc] at hf ⊢
+    have hstep : rd i t.wt (appendVarUint B.length ++ (B ++ rest)) (put t'.zero)
+        = .ok (put (t.proj t' v), (appendVarUint B.length).length + B.length) := by
+      rw [hrd, hw, fieldRead_len t' B rest _ hBl, hread]; rfl
+    rw [structLoop_step rd fuel t.wt i hi _ off _ _ _ (by simp only [List.length_append]; omega) hstep hf]
+    have hd : (appendVarUint B.length ++ (B ++ rest)).drop ((appendVarUint B.length).length + B.length) = rest := by
+      rw [← List.append_assoc]; exact drop_append_len _ _ _ (by simp only [List.length_append])
+    rw [hd]
+    simp only [List.length_append]
+  · have hE := app_frame_other t v (appendTag t.wt i) hwf hty hpres hw
+    rw [hE] at hsz hf ⊢
+    generalize hB : t.app v [] = B at hsz hf h ⊢
+    simp only [List.length_append] at hsz
+    have hBl : B.length < 2 ^ 64 := by omega
+    have hread := (h v hty hv hv2 (by rw [hB]; exact hBl)).2 hw rest
+    rw [hB] at hread
+    simp only [List.append_assoc] at hf ⊢
+    have hstep : rd i t.wt (B ++ rest) (put t'.zero) = .ok (put (t.proj t' v), B.length) := by
+      rw [hrd, fieldRead_other t' t.wt hw, hread]; rfl
+    rw [structLoop_step rd fuel t.wt i hi _ off _ _ _ (by simp only [List.length_append]; omega) hstep hf]
+    rw [drop_append_len _ _ _ rfl]
+    simp only [List.length_append]
+
+/-- the element projection inside `Ty.proj` for the two slice forms with
+length-delimited elements: a nil pointer comes back as a pointer to the zero
+value of the *target's* element type. -/
+def elemProj (t t' : Ty) (v : Val) : Val :=
+  match t', v with
+  | .ptr u', .ptr none => .ptr (some u'.zero)
+  | _, v => t.proj t' v
+
+theorem proj_lslice (t t' : Ty) (vs : List Val) :
+    (Ty.lslice t).proj (.lslice t') (.slice vs) = .slice (vs.map (elemProj t t')) := by
+  simp only [Ty.proj]; rfl
+
+theorem proj_pslice (t t' : Ty) (vs : List Val) :
+    (Ty.pslice t).proj (.pslice t') (.slice vs) = .slice (vs.map (elemProj t t')) := by
+  simp only [Ty.proj]; rfl
+
+theorem elemProj_present (t t' : Ty) (v : Val) (hv : v ≠ .ptr none) : elemProj t t' v = t.proj t' v := by
+  cases t' with
+  | ptr u =>
+    cases v with
+    | ptr o =>
+      cases o with
+      | none => exact absurd rfl hv
+      | some x => rfl
+    | _ => rfl
+  | _ => rfl
+
+theorem ev_elem (t t' : Ty) (hwf : t.wf) (hwf' : t'.wf) (hev : t.Evolves t') (hs : Ty.rtShape false t)
+    (hwt : t.wt = .len) (hm : t.isMap = false) (ih : EvVal t t')
+    (v : Val) (hty : t.hasTy v) (hsz : (t.app v []).length < 2 ^ 64) :
+    t'.read .len (t.app v []) t'.zero = .ok (elemProj t t' v, (t.app v []).length) := by
+  by_cases hv : v = .ptr none
+  · subst hv
+    cases t with
+    | ptr u =>
+      obtain ⟨u', rfl, hev'⟩ := evolves_ptr u t' hev
+      simp only [Ty.rtShape] at hs
+      simp only [Ty.wf] at hwf hwf'
+      simp only [Ty.wt] at hwt
+      have hwt' : u'.wt = .len := by rw [evolves_wt u u' hev', hwt]
+      have := read_nil' u' hwf'.1
+        (by rw [evolves_isProtoRep u u' hev']; exact isPtr_false_not_rep_of_shape u hs.2)
+        (by rw [evolves_isPtr u u' hev']; exact hs.1)
+      rw [hwt'] at this
+      simp only [Ty.app, Ty.zero, Ty.read, this, elemProj, List.length_nil]
+    | _ => simp [Ty.hasTy] at hty
+  · rw [elemProj_present t t' v hv]
+    exact (ih v hty hv (ne_map_none_of_not_map t hm v hty) hsz).1 hwt
+
+theorem ev_lslice (t t' : Ty) (hwf : (Ty.lslice t).wf) (hwf' : t'.wf) (hev : t.Evolves t')
+    (hs : Ty.rtShape false t) (ih : EvVal t t') : EvVal (.lslice t) (.lslice t') := by
+  intro v hty _ _ hsz
+  cases v with
+  | slice vs =>
+    refine ⟨fun h => by simp [Ty.wt] at h, fun _ rest => ?_⟩
+    have he := lslice_entries t vs [] hwf hty
+    simp only [List.nil_append] at he
+    rw [he] at hsz ⊢
+    simp only [Ty.wf] at hwf
+    obtain ⟨hwft, hwt, hmap⟩ := hwf
+    simp only [Ty.hasTy] at hty
+    generalize hE : (vs.flatMap fun v => appendVarUint (t.app v []).length ++ t.app v []) = E at hsz ⊢
+    have hcnt : vs.length ≤ E.length := by
+      rw [← hE]
+      apply length_le_flatMap_length
+      intro x _
+      have := append_len_pos (t.app x []).length
+      simp only [List.length_append]; omega
+    simp only [List.length_append] at hsz
+    have hn : vs.length < 2 ^ 64 := by omega
+    have ⟨h1, h2, h3⟩ := readVarUint_app vs.length hn (E ++ rest)
+    have hloop := elemLoop_flatMap (fun b => t'.read .len b t'.zero) (fun v => t.app v []) (elemProj t t') vs rest
+      (fun x hx => by
+        have hl : (t.app x []).length < 2 ^ 64 := by
+          have := length_le_flatMap_of_mem (fun v => appendVarUint (t.app v []).length ++ t.app v []) vs x hx
+          simp only [List.length_append] at this
+          rw [hE] at this
+          omega
+        exact ⟨hl, ev_elem t t' hwft hwf' hev hs hwt hmap ih x (hty x hx) hl⟩)
+    rw [hE] at hloop
+    have hw : ¬ (WT.slice = WT.len) := by decide
+    have hc : ¬ (vs.length > (appendVarUint vs.length).length + (E.length + rest.length)
+        - (appendVarUint vs.length).length) := by
+      omega
+    simp only [Ty.wt, Ty.read, hw, ↓reduceIte, List.append_assoc, h1, h2, h3, hc,
+      drop_append_len _ _ _ rfl, hloop, proj_lslice, List.length_append]
+  | _ => simp [Ty.hasTy] at hty
+
+theorem pslice_loop' (t t' : Ty) (hwf : t.wf) (hwf' : t'.wf) (hev : t.Evolves t') (hs : Ty.rtShape false t)
+    (hwt : t.wt = .len) (hm : t.isMap = false) (ih : EvVal t t')
+    (i : Nat) (hi : i < 2 ^ 61)
+    (rd : Nat → WT → Bytes → List Val → Res (List Val × Nat)) (put : Val → List Val)
+    (hrd : ∀ wt body a, rd i wt body (put a) = Res.mapFst put (fieldRead (.pslice t') wt body a)) :
+    ∀ (vs done : List Val) (fuel : Nat) (rest : Bytes) (off : Nat),
+      (∀ v ∈ vs, t.hasTy v) →
+      (vs.flatMap fun v => elemFrame t v (appendTag .len i)).length < 2 ^ 64 →
+      ((vs.flatMap fun v => elemFrame t v (appendTag .len i)) ++ rest).length < fuel →
+      structLoop rd fuel ((vs.flatMap fun v => elemFrame t v (appendTag .len i)) ++ rest) off (put (.slice done))
+        = structLoop rd fuel rest (off + (vs.flatMap fun v => elemFrame t v (appendTag .len i)).length)
+            (put (.slice (done ++ vs.map (elemProj t t')))) := by
+  intro vs
+  induction vs with
+  | nil => intro done fuel rest off _ _ _; simp
+  | cons v vs ihvs =>
+    intro done fuel rest off hty hsz hf
+    simp only [List.flatMap_cons, List.length_append, elemFrame, List.append_assoc] at hsz hf ⊢
+    generalize hB : t.app v [] = B at hsz hf ⊢
+    generalize hE : (vs.flatMap fun v => appendTag WT.len i ++ (appendVarUint (t.app v []).length ++ t.app v [])) = E
+      at hsz hf ⊢
+    have hBl : B.length < 2 ^ 64 := by omega
+    have hread := ev_elem t t' hwf hwf' hev hs hwt hm ih v (hty v (by simp)) (by rw [hB]; exact hBl)
+    rw [hB] at hread
+    have hstep : rd i .len (appendVarUint B.length ++ (B ++ (E ++ rest))) (put (.slice done))
+        = .ok (put (.slice (done ++ [elemProj t t' v])), (appendVarUint B.length).length + B.length) := by
+      rw [hrd, fieldRead_len _ B _ _ hBl]
+      simp only [Ty.read, hread]; rfl
+    rw [structLoop_step rd fuel .len i hi _ off _ _ _ (by simp only [List.length_append]; omega) hstep
+      (by simp only [List.length_append]; omega)]
+    have hd : (appendVarUint B.length ++ (B ++ (E ++ rest))).drop ((appendVarUint B.length).length + B.length)
+        = E ++ rest := by
+      rw [← List.append_assoc]; exact drop_append_len _ _ _ (by simp only [List.length_append])
+    rw [hd]
+    have := ihvs (done ++ [elemProj t t' v]) fuel rest
+      (off + ((appendTag WT.len i).length + ((appendVarUint B.length).length + B.length)))
+      (fun x hx => hty x (by simp [hx]))
+    simp only [elemFrame, List.append_assoc, hE] at this
+    rw [this (by omega) (by simp only [List.length_append]; omega)]
+    simp only [List.map_cons, List.singleton_append, Nat.add_assoc]
+
+theorem evField_pslice (t t' : Ty) (hwf : (Ty.pslice t).wf) (hwf' : t'.wf) (hev : t.Evolves t')
+    (hs : Ty.rtShape false t) (ih : EvVal t t') :
+    EvField (.pslice t) (.pslice t') ((Ty.pslice t).proj (.pslice t')) := by
+  intro i v hi hty hom hsz rd put hrd fuel rest off hf
+  cases v with
+  | slice vs =>
+    have hE := pslice_frames t vs (appendTag (Ty.pslice t).wt i) hwf hty (deref_not_rep t hs)
+      (appendTag_ne_nil _ _)
+    rw [hE] at hsz hf ⊢
+    simp only [Ty.wf] at hwf
+    simp only [Ty.hasTy] at hty
+    simp only [Ty.wt] at hsz hf hrd ⊢
+    have := pslice_loop' t t' hwf.1 hwf' hev hs hwf.2.1 hwf.2.2 ih i hi rd put hrd vs [] fuel rest off hty hsz hf
+    simp only [Ty.zero, proj_pslice]
+    simpa using this
+  | _ => simp [Ty.hasTy] at hty
+
+theorem ev_struct (nm nm' : String) (fs fs' : Fields) (hwf : (Ty.struct nm fs).wf)
+    (hwf' : (Ty.struct nm' fs').wf) (hs : fieldsRtShape fs)
+    (hall : ∀ f ∈ fs, ∀ f' ∈ fs', f.1 = f'.1 → EvField f.2.2 f'.2.2 (f.2.2.proj f'.2.2))
+    (hirr : ∀ f ∈ fs, ∀ f' ∈ fs', f.1 = f'.1 → f'.2.2.overwrites = true → StartIrrel f.2.2 f'.2.2) :
+    EvVal (.struct nm fs) (.struct nm' fs') := by
+  intro v hty _ _ hsz
+  cases v with
+  | struct vs =>
+    refine ⟨fun _ => ?_, fun h => by simp [Ty.wt] at h⟩
+    simp only [Ty.wf] at hwf hwf'
+    simp only [Ty.hasTy] at hty
+    simp only [struct_body] at hsz ⊢
+    have := evolve_loop Ty.proj fs' hwf'.1 fs vs hwf.1 hwf.2.1 hall hirr
+      (fun f hf _ => skipField_of_shape f.2.2 (fieldsWf_mem fs hwf.2.2 f hf) (fieldsRtShape_mem fs hs f hf))
+      hty (zeros fs') (priorFitsWith_zeros _ fs') ((fieldsApp fs vs).length + 1) 0 (by omega) hsz
+    simp only [Nat.zero_add] at this
+    simp only [Ty.read, Ty.zero, this, Ty.proj, fieldsProj_eq']
+  | _ => simp [Ty.hasTy] at hty
+
+/-! ### 6. maps: the key codec is unchanged, the value codec evolves -/
+
+/-- a map value appended under tag `j` by `t`, found by `readTagAndLength` and
+read by the evolved codec `t'` from the bytes it delimits. -/
+theorem field_decode' (t t' : Ty) (hwf : t.wf) (hs : Ty.rtShape false t) (h : EvVal t t')
+    (x : Val) (hty : t.hasTy x) (hom : x.omit = false) (j : Nat) (hj : j < 2 ^ 61)
+    (hsz : (t.app x (appendTag t.wt j)).length < 2 ^ 64) (rest : Bytes) :
+    ∃ hdr fl, readTagAndLength (t.app x (appendTag t.wt j) ++ rest) = some (t.wt, j, hdr, fl) ∧
+      0 < hdr ∧ hdr ≤ (t.app x (appendTag t.wt j)).length ∧
+      t'.read t.wt (((t.app x (appendTag t.wt j) ++ rest).drop hdr).take fl) t'.zero
+        = .ok (t.proj t' x, (t.app x (appendTag t.wt j)).length - hdr) := by
+  have hv := ne_ptr_none_of_not_omit x hom
+  have hv2 := ne_map_none_of_not_omit x hom
+  have hpres := present_of_shape t hs x hty hv
+  have htag := appendTag_ne_nil t.wt j
+  have htl := appendTag_len_pos t.wt j
+  by_cases hw : t.wt = .len
+  · have hE := app_frame_len t x (appendTag t.wt j) hwf hty hpres hw (deref_not_rep t hs) htag
+    rw [hE] at hsz ⊢
+    generalize hB : t.app x [] = B at hsz h ⊢
+    simp only [List.length_append] at hsz
+    have hBl : B.length < 2 ^ 64 := by omega
+    have hread := (h x hty hv hv2 (by rw [hB]; exact hBl)).1 hw
+    rw [hB] at hread
+    refine ⟨(appendTag t.wt j).length + (appendVarUint B.length).length, B.length, ?_, by omega, ?_, ?_⟩
+    · simp only [List.append_assoc]
+      rw [hw]
+      exact readTagAndLength_len j hj B rest hBl
+    · simp only [List.length_append]; omega
+    · have hd : (appendTag t.wt j ++ appendVarUint B.length ++ B ++ rest).drop
+          ((appendTag t.wt j).length + (appendVarUint B.length).length) = B ++ rest := by
+        rw [List.append_assoc]; exact drop_append_len _ _ _ (by simp only [List.length_append])
+      rw [hd, take_append_len _ _ _ rfl, hw, hread]
+      simp only [List.length_append]
+      congr 2; omega
+  · have hE := app_frame_other t x (appendTag t.wt j) hwf hty hpres hw
+    rw [hE] at hsz ⊢
+    generalize hB : t.app x [] = B at hsz h ⊢
+    simp only [List.length_append] at hsz
+    have hBl : B.length < 2 ^ 64 := by omega
+    have hread := (h x hty hv hv2 (by rw [hB]; exact hBl)).2 hw rest
+    rw [hB] at hread
+    refine ⟨(appendTag t.wt j).length, (B ++ rest).length, ?_, htl, ?_, ?_⟩
+    · rw [List.append_assoc]
+      exact readTagAndLength_other t.wt hw j hj (B ++ rest)
+    · simp only [List.length_append]; omega
+    · rw [List.append_assoc, drop_append_len _ _ _ rfl, List.take_length, hread]
+      simp only [List.length_append]
+      congr 2; omega
+
+/-- the projection of one entry (the function mapped over the entries inside
+`Ty.proj`): key normalised by its own codec, value projected. -/
+def entryProj (k v v' : Ty) (e : Val × Val) : Val × Val :=
+  ((if e.1.omit then k.zero else k.norm e.1), (if e.2.omit then v'.zero else v.proj v' e.2))
+
+theorem proj_map (k v k' v' : Ty) (p p' : Bool) (es : List (Val × Val)) :
+    (Ty.map k v p).proj (.map k' v' p') (.map (some es))
+      = if p = true ∧ es.isEmpty then .map none else .map (some (es.map (entryProj k v v'))) := by
+  simp only [Ty.proj]; rfl
+
+theorem entry_ev (k v v' : Ty) (hkwf : k.wf) (hvwf : v.wf) (hks : Ty.rtShape false k)
+    (hvs : Ty.rtShape false v) (ihk : RTVal k) (ihv : EvVal v v') (e : Val × Val)
+    (hk : k.hasTy e.1) (hv : v.hasTy e.2) (hsz : (entryBody k v e).length < 2 ^ 64)
+    (es : List (Val × Val)) (hnew : ∀ e' ∈ es, e'.1.beq (entryProj k v v' e).1 = false) :
+    readMapEntry (fun wt b => k.read wt b k.zero) (fun wt b s => v'.read wt b s) k.zero v'.zero
+        (entryBody k v e) es
+      = .ok (es ++ [entryProj k v v' e], (entryBody k v e).length) := by
+  obtain ⟨x, y⟩ := e
+  simp only at hk hv
+  have hlook := mapLookup_none _ es hnew
+  rw [← mapSet_append _ (entryProj k v v' (x, y)).2 es hnew]
+  cases hox : x.omit with
+  | true =>
+    cases hoy : y.omit with
+    | true =>
+      simp only [entryBody, entryProj, hox, hoy, ↓reduceIte, List.append_nil, List.length_nil]
+      exact readMapEntry_none _ _ _ _ es
+    | false =>
+      simp only [entryBody, entryProj, hox, hoy, ↓reduceIte, Bool.false_eq_true, List.nil_append] at hsz hlook ⊢
+      obtain ⟨hdr, fl, h1, _, hle, h2⟩ := field_decode' v v' hvwf hvs ihv y hv hoy 2 (by omega) hsz []
+      rw [List.append_nil] at h1 h2
+      refine readMapEntry_v _ _ _ _ _ v.wt hdr fl _ es h1 ?_ hle
+      rw [hlook]
+      exact h2
+  | false =>
+    cases hoy : y.omit with
+    | true =>
+      simp only [entryBody, entryProj, hox, hoy, ↓reduceIte, Bool.false_eq_true, List.append_nil] at hsz ⊢
+      obtain ⟨hdr, fl, h1, _, hle, h2⟩ := field_decode k hkwf hks ihk x hk hox 1 (by omega) hsz []
+      rw [List.append_nil] at h1 h2
+      exact readMapEntry_k _ _ _ _ _ k.wt hdr fl _ es h1 h2 hle
+    | false =>
+      simp only [entryBody, entryProj, hox, hoy, ↓reduceIte, Bool.false_eq_true] at hsz hlook ⊢
+      simp only [List.length_append] at hsz
+      obtain ⟨hdr, fl, h1, _, hle, h2⟩ := field_decode k hkwf hks ihk x hk hox 1 (by omega) (by omega)
+        (v.app y (appendTag v.wt 2))
+      obtain ⟨hdr2, fl2, h3, hpos2, hle2, h4⟩ := field_decode' v v' hvwf hvs ihv y hv hoy 2 (by omega) (by omega) []
+      rw [List.append_nil] at h3 h4
+      refine readMapEntry_kv _ _ _ _ _ _ k.wt v.wt hdr fl hdr2 fl2 2 _ _ es h1 h2 hle h3 ?_ hle2 (by omega)
+      rw [hlook]
+      exact h4
+
+theorem keys_new' (k v v' : Ty) (hks : k.keySafe) (es : List (Val × Val))
+    (htys : ∀ e ∈ es, k.hasTy e.1 ∧ v.hasTy e.2) (hd : keysDistinct es)
+    (pre : List (Val × Val)) (e : Val × Val) (suf : List (Val × Val)) (h : es = pre ++ e :: suf) :
+    ∀ e' ∈ pre.map (entryProj k v v'), e'.1.beq (entryProj k v v' e).1 = false := by
+  intro e' he'
+  obtain ⟨e0, he0, rfl⟩ := List.mem_map.mp he'
+  have hm0 : e0 ∈ es := by rw [h]; simp [he0]
+  have hm : e ∈ es := by rw [h]; simp
+  simp only [entryProj]
+  rw [key_norm_id k hks e0.1 (htys e0 hm0).1, key_norm_id k hks e.1 (htys e hm).1]
+  rw [h] at hd
+  exact keysDistinct_split pre e suf hd e0 he0
+
+theorem entries_ev (k v v' : Ty) (hkwf : k.wf) (hvwf : v.wf) (hks : k.keySafe)
+    (hvs : Ty.rtShape false v) (ihk : RTVal k) (ihv : EvVal v v') (es : List (Val × Val))
+    (htys : ∀ e ∈ es, k.hasTy e.1 ∧ v.hasTy e.2) (hd : keysDistinct es)
+    (hsz : ∀ e ∈ es, (entryBody k v e).length < 2 ^ 64) :
+    ∀ pre e suf, es = pre ++ e :: suf →
+      (entryBody k v e).length < 2 ^ 64 ∧
+      readMapEntry (fun wt b => k.read wt b k.zero) (fun wt b s => v'.read wt b s) k.zero v'.zero
+          (entryBody k v e) ([] ++ pre.map (entryProj k v v'))
+        = .ok ([] ++ pre.map (entryProj k v v') ++ [entryProj k v v' e], (entryBody k v e).length) := by
+  intro pre e suf h
+  have hm : e ∈ es := by rw [h]; simp
+  refine ⟨hsz e hm, ?_⟩
+  simp only [List.nil_append]
+  exact entry_ev k v v' hkwf hvwf (keySafe_shape k hks) hvs ihk ihv e (htys e hm).1 (htys e hm).2 (hsz e hm) _
+    (keys_new' k v v' hks es htys hd pre e suf h)
+
+theorem ev_map (k v v' : Ty) (hwf : (Ty.map k v false).wf) (hks : k.keySafe) (hvs : Ty.rtShape false v)
+    (ihk : RTVal k) (ihv : EvVal v v') : EvVal (.map k v false) (.map k v' false) := by
+  intro x hty _ hx hsz
+  cases x with
+  | map o =>
+    cases o with
+    | none => exact absurd rfl hx
+    | some es =>
+      refine ⟨fun h => by simp [Ty.wt] at h, fun _ rest => ?_⟩
+      have he := map_entries k v es [] hwf hty
+      simp only [List.nil_append] at he
+      rw [he] at hsz ⊢
+      simp only [Ty.wf] at hwf
+      simp only [Ty.hasTy] at hty
+      have hle := entryBody_le k v es
+      have H := entries_ev k v v' hwf.1 hwf.2.1 hks hvs ihk ihv es hty.1 hty.2 (fun e he => by
+        have := hle e he
+        simp only [List.length_append] at hsz
+        omega)
+      have hloop := mapLoop_entries
+        (readMapEntry (fun wt b => k.read wt b k.zero) (fun wt b s => v'.read wt b s) k.zero v'.zero)
+        (entryBody k v) (entryProj k v v') es [] rest (appendVarUint es.length).length H
+      generalize hE : (es.flatMap fun e => appendVarUint (entryBody k v e).length ++ entryBody k v e) = E
+        at hsz hloop ⊢
+      have hcnt : es.length ≤ E.length := by
+        rw [← hE]
+        apply length_le_flatMap_length
+        intro e _
+        have := append_len_pos (entryBody k v e).length
+        simp only [List.length_append]; omega
+      simp only [List.length_append] at hsz
+      have hn : es.length < 2 ^ 64 := by omega
+      have hne : (appendVarUint es.length ++ E ++ rest).isEmpty = false := by
+        have := append_len_pos es.length
+        cases h : appendVarUint es.length ++ E ++ rest with
+        | nil =>
+          have := congrArg List.length h
+          simp only [List.length_append, List.length_nil] at this; omega
+        | cons _ _ => rfl
+      have hc : ¬ (es.length > (appendVarUint es.length).length + (E.length + rest.length)
+          - (appendVarUint es.length).length) := by omega
+      have hnf : ¬ (false = true ∧ es.isEmpty = true) := by simp
+      simp only [Ty.read, Ty.zero, hne, Bool.false_eq_true, ↓reduceIte]
+      simp only [List.append_assoc, readU_append _ hn, List.length_append, hc, ↓reduceIte,
+        drop_append_len _ _ _ rfl, hloop, proj_map, hnf, List.nil_append]
+  | _ => simp [Ty.hasTy] at hty
+
+theorem pmap_loop' (k v v' : Ty) (i : Nat) (hi : i < 2 ^ 61)
+    (rd : Nat → WT → Bytes → List Val → Res (List Val × Nat)) (put : Val → List Val)
+    (hrd : ∀ wt body a, rd i wt body (put a) = Res.mapFst put (fieldRead (.map k v' true) wt body a)) :
+    ∀ (ents acc : List (Val × Val)) (fuel : Nat) (rest : Bytes) (off : Nat),
+      (∀ pre e suf, ents = pre ++ e :: suf → (entryBody k v e).length < 2 ^ 64 ∧
+        readMapEntry (fun wt b => k.read wt b k.zero) (fun wt b s => v'.read wt b s) k.zero v'.zero
+            (entryBody k v e) (acc ++ pre.map (entryProj k v v'))
+          = .ok (acc ++ pre.map (entryProj k v v') ++ [entryProj k v v' e], (entryBody k v e).length)) →
+      ((ents.flatMap fun e => appendTag .len i ++ (appendVarUint (entryBody k v e).length ++ entryBody k v e))
+          ++ rest).length < fuel →
+      structLoop rd fuel
+          ((ents.flatMap fun e => appendTag .len i ++ (appendVarUint (entryBody k v e).length ++ entryBody k v e))
+            ++ rest) off (put (.map (some acc)))
+        = structLoop rd fuel rest
+            (off + (ents.flatMap fun e =>
+              appendTag .len i ++ (appendVarUint (entryBody k v e).length ++ entryBody k v e)).length)
+            (put (.map (some (acc ++ ents.map (entryProj k v v'))))) := by
+  intro ents
+  induction ents with
+  | nil => intro acc fuel rest off _ _; simp
+  | cons e ents ih =>
+    intro acc fuel rest off H hf
+    obtain ⟨hl, hr⟩ := H [] e ents rfl
+    simp only [List.map_nil, List.append_nil] at hr
+    simp only [List.flatMap_cons, List.append_assoc, List.length_append] at hf ⊢
+    have hread : (Ty.map k v' true).read .len (entryBody k v e) (.map (some acc))
+        = .ok (.map (some (acc ++ [entryProj k v v' e])), (entryBody k v e).length) := by
+      simp only [Ty.read, hr]
+    rw [frame_step (.map k v' true) i hi rd put hrd (entryBody k v e) _ hl _ _ hread fuel off
+      (by simp only [List.length_append]; omega)]
+    rw [ih (acc ++ [entryProj k v v' e]) fuel rest _ (fun pre e' suf h => by
+      have := H (e :: pre) e' suf (by rw [h]; rfl)
+      simpa [List.append_assoc] using this) (by simp only [List.length_append]; omega)]
+    simp only [List.map_cons, List.append_assoc, List.singleton_append, Nat.add_assoc]
+
+theorem evField_pmap (k v v' : Ty) (hwf : (Ty.map k v true).wf) (hks : k.keySafe) (hvs : Ty.rtShape false v)
+    (ihk : RTVal k) (ihv : EvVal v v') :
+    EvField (.map k v true) (.map k v' true) ((Ty.map k v true).proj (.map k v' true)) := by
+  intro i x hi hty hom hsz rd put hrd fuel rest off hf
+  cases x with
+  | map o =>
+    cases o with
+    | none => simp [Val.omit] at hom
+    | some es =>
+      have he := pmap_frames k v es (appendTag (Ty.map k v true).wt i) hwf hty
+      rw [he] at hsz hf ⊢
+      simp only [Ty.wf] at hwf
+      simp only [Ty.hasTy] at hty
+      simp only [Ty.wt, List.append_assoc] at hsz hf hrd ⊢
+      have hle : ∀ e ∈ es, (entryBody k v e).length < 2 ^ 64 := by
+        intro e he
+        have := length_le_flatMap_of_mem
+          (fun e => appendTag .len i ++ (appendVarUint (entryBody k v e).length ++ entryBody k v e)) es e he
+        simp only [List.length_append] at this
+        omega
+      have H := entries_ev k v v' hwf.1 hwf.2.1 hks hvs ihk ihv es hty.1 hty.2 hle
+      cases es with
+      | nil => simp [Ty.zero, proj_map]
+      | cons e es' =>
+        obtain ⟨hl, hr⟩ := H [] e es' rfl
+        simp only [List.map_nil, List.append_nil] at hr
+        simp only [List.flatMap_cons, List.append_assoc, List.length_append] at hf ⊢
+        have hread : (Ty.map k v' true).read .len (entryBody k v e) (.map none)
+            = .ok (.map (some ([] ++ [entryProj k v v' e])), (entryBody k v e).length) := by
+          simp only [Ty.read, hr]
+        simp only [Ty.zero, proj_map, List.isEmpty_cons, Bool.false_eq_true, and_false, ↓reduceIte]
+        rw [frame_step (.map k v' true) i hi rd put hrd (entryBody k v e) _ hl _ _ hread fuel off
+          (by simp only [List.length_append]; omega)]
+        rw [pmap_loop' k v v' i hi rd put hrd es' ([] ++ [entryProj k v v' e]) fuel rest _ (fun pre e' suf h => by
+          have := H (e :: pre) e' suf (by rw [h]; rfl)
+          simpa [List.append_assoc] using this) (by simp only [List.length_append]; omega)]
+        simp only [List.map_cons, List.nil_append, List.singleton_append, Nat.add_assoc]
+  | _ => simp [Ty.hasTy] at hty
+
+/-! ### 7. assembly: mutual structural induction over the source codec tree -/
+
+/-- the induction predicate, for every evolved target codec `t'`. -/
+def EP (t : Ty) : Prop :=
+  ∀ t', t.wf → t'.wf → t.Evolves t' →
+    (Ty.rtShape false t → EvVal t t') ∧ (Ty.rtShape true t → EvField t t' (t.proj t'))
+
+theorem ep_of_val (t : Ty) (hr : t.isProtoRep = false)
+    (h : ∀ t', t.wf → t'.wf → t.Evolves t' → Ty.rtShape false t → EvVal t t') : EP t := by
+  intro t' hwf hwf' hev
+  refine ⟨h t' hwf hwf' hev, fun hs => ?_⟩
+  have hs' := shape_false_of_true t hr hs
+  exact evField_of_val t t' hwf hs' (h t' hwf hwf' hev hs')
+
+/-- the codecs that do not evolve: the target codec is the same, `proj` is `norm`,
+and the statement is the round trip. -/
+theorem ep_leaf (t : Ty) (hleaf : ∀ t', t.Evolves t' → t' = t) (hproj : ∀ t' v, t.proj t' v = t.norm v) :
+    EP t := by
+  intro t' hwf _ hev
+  rw [hleaf t' hev]
+  have hfun : t.proj t = t.norm := funext (hproj t)
+  have := pp_ty t hwf
+  refine ⟨fun hs => ?_, fun hs => ?_⟩
+  · intro v hty hv hv2 hsz
+    rw [hproj]
+    exact this.1 hs v hty hv hv2 hsz
+  · rw [hfun]
+    exact this.2 hs
+
+theorem ep_ptr (u : Ty) (ih : EP u) : EP (.ptr u) :=
+  ep_of_val _ rfl (fun t' hwf hwf' hev hs => by
+    obtain ⟨u', rfl, hev'⟩ := evolves_ptr u t' hev
+    simp only [Ty.wf] at hwf hwf'
+    simp only [Ty.rtShape] at hs
+    exact ev_ptr u u' hs.1 hwf.2 ((ih u' hwf.1 hwf'.1 hev').1 hs.2))
+
+theorem ep_lslice (u : Ty) (ih : EP u) : EP (.lslice u) :=
+  ep_of_val _ rfl (fun t' hwf hwf' hev hs => by
+    obtain ⟨u', rfl, hev'⟩ := evolves_lslice u t' hev
+    simp only [Ty.rtShape] at hs
+    have hwfu' : u'.wf := by simp only [Ty.wf] at hwf'; exact hwf'.1
+    exact ev_lslice u u' hwf hwfu' hev' hs ((ih u' hwf.1 hwfu' hev').1 hs))
+
+theorem ep_pslice (u : Ty) (ih : EP u) : EP (.pslice u) := by
+  intro t' hwf hwf' hev
+  obtain ⟨u', rfl, hev'⟩ := evolves_pslice u t' hev
+  refine ⟨fun hs => by simp [Ty.rtShape] at hs, fun hs => ?_⟩
+  simp only [Ty.rtShape, true_and] at hs
+  have hwfu' : u'.wf := by simp only [Ty.wf] at hwf'; exact hwf'.1
+  exact evField_pslice u u' hwf hwfu' hev' hs ((ih u' hwf.1 hwfu' hev').1 hs)
+
+theorem ep_struct (nm : String) (fs : Fields) (ih : ∀ f ∈ fs, EP f.2.2) : EP (.struct nm fs) :=
+  ep_of_val _ rfl (fun t' hwf hwf' hev hs => by
+    obtain ⟨nm', fs', rfl, hev'⟩ := evolves_struct nm fs t' hev
+    simp only [Ty.rtShape] at hs
+    refine ev_struct nm nm' fs fs' hwf hwf' hs (fun f hf f' hf' he => ?_) (fun f hf f' hf' he hov => ?_)
+    · exact (ih f hf f'.2.2 (fieldsWf_mem fs hwf.2.2 f hf) (fieldsWf_mem fs' hwf'.2.2 f' hf')
+        (fieldEvolves_mem fs f'.1 f'.2.2 (hev' f' hf') f hf he)).2 (fieldsRtShape_mem fs hs f hf)
+    · have hE := fieldEvolves_mem fs f'.1 f'.2.2 (hev' f' hf') f hf he
+      exact startIrrel_of f.2.2 f'.2.2 (fieldsWf_mem fs hwf.2.2 f hf) (fieldsRtShape_mem fs hs f hf)
+        (by rw [← evolves_isProtoRep _ _ hE]; exact overwrites_not_rep _ hov) (evolves_wt _ _ hE) hov)
+
+theorem ep_map (k v : Ty) (p : Bool) (ihv : EP v) : EP (.map k v p) := by
+  cases p with
+  | false =>
+    exact ep_of_val _ rfl (fun t' hwf hwf' hev hs => by
+      obtain ⟨v', rfl, hev'⟩ := evolves_map k v false t' hev
+      simp only [Ty.rtShape] at hs
+      have hwfv' : v'.wf := by simp only [Ty.wf] at hwf'; exact hwf'.2.1
+      exact ev_map k v v' hwf hs.2.1 hs.2.2 ((pp_ty k hwf.1).1 (keySafe_shape k hs.2.1))
+        ((ihv v' hwf.2.1 hwfv' hev').1 hs.2.2))
+  | true =>
+    intro t' hwf hwf' hev
+    obtain ⟨v', rfl, hev'⟩ := evolves_map k v true t' hev
+    refine ⟨fun hs => by simp [Ty.rtShape] at hs, fun hs => ?_⟩
+    simp only [Ty.rtShape] at hs
+    have hwfv' : v'.wf := by simp only [Ty.wf] at hwf'; exact hwf'.2.1
+    exact evField_pmap k v v' hwf hs.2.1 hs.2.2 ((pp_ty k hwf.1).1 (keySafe_shape k hs.2.1))
+      ((ihv v' hwf.2.1 hwfv' hev').1 hs.2.2)
+
+mutual
+theorem ep_ty : (t : Ty) → EP t
+  | .bool => ep_leaf _ (fun _ h => by simpa only [Ty.Evolves] using h) (fun _ _ => by simp only [Ty.proj])
+  | .int _ => ep_leaf _ (fun _ h => by simpa only [Ty.Evolves] using h) (fun _ _ => by simp only [Ty.proj])
+  | .uint _ => ep_leaf _ (fun _ h => by simpa only [Ty.Evolves] using h) (fun _ _ => by simp only [Ty.proj])
+  | .flat _ => ep_leaf _ (fun _ h => by simpa only [Ty.Evolves] using h) (fun _ _ => by simp only [Ty.proj])
+  | .f32 => ep_leaf _ (fun _ h => by simpa only [Ty.Evolves] using h) (fun _ _ => by simp only [Ty.proj])
+  | .f64 => ep_leaf _ (fun _ h => by simpa only [Ty.Evolves] using h) (fun _ _ => by simp only [Ty.proj])
+  | .str _ => ep_leaf _ (fun _ h => by simpa only [Ty.Evolves] using h) (fun _ _ => by simp only [Ty.proj])
+  | .bytes => ep_leaf _ (fun _ h => by simpa only [Ty.Evolves] using h) (fun _ _ => by simp only [Ty.proj])
+  | .time _ => ep_leaf _ (fun _ h => by simpa only [Ty.Evolves] using h) (fun _ _ => by simp only [Ty.proj])
+  | .vslice _ => ep_leaf _ (fun _ h => by simpa only [Ty.Evolves] using h) (fun _ _ => by simp only [Ty.proj])
+  | .fslice _ => ep_leaf _ (fun _ h => by simpa only [Ty.Evolves] using h) (fun _ _ => by simp only [Ty.proj])
+  | .ptr u => ep_ptr u (ep_ty u)
+  | .lslice u => ep_lslice u (ep_ty u)
+  | .pslice u => ep_pslice u (ep_ty u)
+  | .struct nm fs => ep_struct nm fs (ep_fields fs)
+  | .map k v p => ep_map k v p (ep_ty v)
+theorem ep_fields : (fs : Fields) → ∀ f ∈ fs, EP f.2.2
+  | [] => by intro f hf; simp at hf
+  | (_, _, t) :: r => by
+      intro f hf
+      rcases List.mem_cons.mp hf with rfl | hf
+      · exact ep_ty t
+      · exact ep_fields r f hf
+end
+
+/-! ### 8. the theorems -/
+
+theorem marshal_struct (n : String) (fs : Fields) (vs : List Val) :
+    marshal (.struct n fs) (.struct vs) = fieldsApp fs vs := by
+  simp only [marshal, Val.omit, Bool.false_eq_true, ↓reduceIte, struct_body]
+
+/-- top-level evolution only (remove / add / reorder / rename at the top level,
+shared fields keep their codec): the reader consumes all the data and produces
+the top-level projection. Any prior that fits (`priorFitsTop`). -/
+theorem decode_toplevel_consumed (n n' : String) (fs fs' : Fields) (vs prior : List Val)
+    (hwf : (Ty.struct n fs).wf) (hwf' : (Ty.struct n' fs').wf)
+    (hsame : ∀ f ∈ fs, ∀ f' ∈ fs', f.1 = f'.1 → f'.2.2 = f.2.2)
+    (hshape : Ty.rtShape false (.struct n fs)) (hty : (Ty.struct n fs).hasTy (.struct vs))
+    (hsz : (marshal (.struct n fs) (.struct vs)).length < 2 ^ 63)
+    (hprior : priorFitsTop fs fs' vs prior) :
+    (Ty.struct n' fs').read .len (marshal (.struct n fs) (.struct vs)) (.struct prior)
+      = .ok (.struct (projectTop fs fs' vs prior), (marshal (.struct n fs) (.struct vs)).length) := by
+  rw [marshal_struct] at hsz ⊢
+  simp only [Ty.wf] at hwf hwf'
+  simp only [Ty.rtShape] at hshape
+  simp only [Ty.hasTy] at hty
+  have := evolve_loop (fun t _ v => t.norm v) fs' hwf'.1 fs vs hwf.1 hwf.2.1
+    (fun f hf f' hf' he => by
+      rw [hsame f hf f' hf' he]
+      exact (pp_ty f.2.2 (fieldsWf_mem fs hwf.2.2 f hf)).2 (fieldsRtShape_mem fs hshape f hf))
+    (fun f hf f' hf' he hov => by
+      rw [hsame f hf f' hf' he] at hov ⊢
+      exact startIrrel_of f.2.2 f.2.2 (fieldsWf_mem fs hwf.2.2 f hf) (fieldsRtShape_mem fs hshape f hf)
+        (overwrites_not_rep _ hov) rfl hov)
+    (fun f hf _ => skipField_of_shape f.2.2 (fieldsWf_mem fs hwf.2.2 f hf) (fieldsRtShape_mem fs hshape f hf))
+    hty prior hprior ((fieldsApp fs vs).length + 1) 0 (by omega) (by omega)
+  simp only [Nat.zero_add] at this
+  simp only [Ty.read, this, projectTop]
+
+/-- **C03, all depths**: data written from `S = struct n fs` decodes into the
+evolved `S' = struct n' fs'`, consuming all of it, to the projection. -/
+theorem decode_evolved_consumed (n n' : String) (fs fs' : Fields) (vs prior : List Val)
+    (hwf : (Ty.struct n fs).wf) (hwf' : (Ty.struct n' fs').wf)
+    (hev : (Ty.struct n fs).Evolves (.struct n' fs'))
+    (hshape : Ty.rtShape false (.struct n fs)) (hty : (Ty.struct n fs).hasTy (.struct vs))
+    (hsz : (marshal (.struct n fs) (.struct vs)).length < 2 ^ 63)
+    (hprior : priorFits fs fs' vs prior) :
+    (Ty.struct n' fs').read .len (marshal (.struct n fs) (.struct vs)) (.struct prior)
+      = .ok (.struct (project fs fs' vs prior), (marshal (.struct n fs) (.struct vs)).length) := by
+  rw [marshal_struct] at hsz ⊢
+  have hev' : FieldsEvolve fs fs' := by simpa only [Ty.Evolves, FieldsEvolve] using hev
+  have hwf0 := hwf
+  have hwf0' := hwf'
+  simp only [Ty.wf] at hwf hwf'
+  simp only [Ty.rtShape] at hshape
+  simp only [Ty.hasTy] at hty
+  simp only [priorFits, fieldsProj_eq'] at hprior
+  have := evolve_loop Ty.proj fs' hwf'.1 fs vs hwf.1 hwf.2.1
+    (fun f hf f' hf' he =>
+      (ep_ty f.2.2 f'.2.2 (fieldsWf_mem fs hwf.2.2 f hf) (fieldsWf_mem fs' hwf'.2.2 f' hf')
+        (fieldEvolves_mem fs f'.1 f'.2.2 (hev' f' hf') f hf he)).2 (fieldsRtShape_mem fs hshape f hf))
+    (fun f hf f' hf' he hov => by
+      have hE := fieldEvolves_mem fs f'.1 f'.2.2 (hev' f' hf') f hf he
+      exact startIrrel_of f.2.2 f'.2.2 (fieldsWf_mem fs hwf.2.2 f hf) (fieldsRtShape_mem fs hshape f hf)
+        (by rw [← evolves_isProtoRep _ _ hE]; exact overwrites_not_rep _ hov) (evolves_wt _ _ hE) hov)
+    (fun f hf _ => skipField_of_shape f.2.2 (fieldsWf_mem fs hwf.2.2 f hf) (fieldsRtShape_mem fs hshape f hf))
+    hty prior hprior ((fieldsApp fs vs).length + 1) 0 (by omega) (by omega)
+  simp only [Nat.zero_add] at this
+  simp only [Ty.read, this, project, fieldsProj_eq']
+
+/-- the general root (any codec in the round-trip shapes, not only a struct),
+decoding into the zero value of the evolved type. -/
+theorem decode_evolved_zero (t t' : Ty) (v : Val) (hwf : t.wf) (hwf' : t'.wf) (hev : t.Evolves t')
+    (hshape : Ty.rtShape false t) (hnp : t.isPtr = false) (hty : t.hasTy v)
+    (hsz : (marshal t v).length < 2 ^ 63) :
+    unmarshal t' (marshal t v) t'.zero = .ok (if v.omit then t'.zero else t.proj t' v) := by
+  unfold marshal at hsz ⊢
+  unfold unmarshal
+  cases ho : v.omit with
+  | true =>
+    have := read_nil' t' hwf'
+      (by rw [evolves_isProtoRep t t' hev]; exact isPtr_false_not_rep_of_shape t hshape)
+      (by rw [evolves_isPtr t t' hev]; exact hnp)
+    simp only [↓reduceIte, this]
+  | false =>
+    simp only [ho, Bool.false_eq_true, ↓reduceIte] at hsz ⊢
+    have h := (ep_ty t t' hwf hwf' hev).1 hshape v hty (ne_ptr_none_of_not_omit v ho)
+      (ne_map_none_of_not_omit v ho) (by omega)
+    rw [evolves_wt t t' hev]
+    by_cases hw : t.wt = .len
+    · rw [hw, h.1 hw]
+    · have := h.2 hw []
+      rw [List.append_nil] at this
+      rw [this]
+
+/-- `skip_unknown_exact` for the struct reader itself: a struct type with no
+field of index `i`, its loop started on a present value of any non-repeated
+codec `t` appended under tag `(t.wt, i)` and followed by arbitrary bytes,
+continues on those bytes with its field values unchanged. -/
+theorem skip_unknown_exact (t : Ty) (v : Val) (i : Nat) (hi : i < 2 ^ 61)
+    (hwf : t.wf) (hty : t.hasTy v) (hp : v.present = true) (hr : t.deref.isProtoRep = false)
+    (hsz : (t.app v []).length < 2 ^ 64)
+    (fs' : Fields) (acc : List Val) (hni : i ∉ fs'.map (·.1)) (hacc : acc.length = fs'.length)
+    (fuel : Nat) (rest : Bytes) (off : Nat)
+    (hf : (t.app v (appendTag t.wt i) ++ rest).length < fuel) :
+    structLoop (fun idx wt body acc => readField fs' acc idx wt body) fuel
+        (t.app v (appendTag t.wt i) ++ rest) off acc
+      = structLoop (fun idx wt body acc => readField fs' acc idx wt body) fuel rest
+          (off + (t.app v (appendTag t.wt i)).length) acc :=
+  skip_unknown_rd t v i hi hwf hty hp hr hsz _ acc (skips_readField fs' acc i hni hacc) fuel rest off hf
+
+/-- the same for every shape a struct field can take, including the repeated
+forms (one frame per element / entry). -/
+theorem skip_unknown_exact_field (t : Ty) (hwf : t.wf) (hs : Ty.rtShape true t) (v : Val) (hty : t.hasTy v)
+    (hom : v.omit = false) (i : Nat) (hi : i < 2 ^ 61)
+    (hsz : (t.app v (appendTag t.wt i)).length < 2 ^ 64)
+    (fs' : Fields) (acc : List Val) (hni : i ∉ fs'.map (·.1)) (hacc : acc.length = fs'.length)
+    (fuel : Nat) (rest : Bytes) (off : Nat)
+    (hf : (t.app v (appendTag t.wt i) ++ rest).length < fuel) :
+    structLoop (fun idx wt body acc => readField fs' acc idx wt body) fuel
+        (t.app v (appendTag t.wt i) ++ rest) off acc
+      = structLoop (fun idx wt body acc => readField fs' acc idx wt body) fuel rest
+          (off + (t.app v (appendTag t.wt i)).length) acc :=
+  skip_unknown_field t hwf hs v hty hom i hi hsz _ acc (skips_readField fs' acc i hni hacc) fuel rest off hf
+
+/-! ### 9. names never reach the encoding -/
+
+set_option linter.unusedSimpArgs false
+
+/-- the five codec functions do not see names. -/
+def NameLaw (t : Ty) : Prop :=
+  Ty.wt t.eraseNames = Ty.wt t ∧ Ty.zero t.eraseNames = Ty.zero t ∧ Ty.size t.eraseNames = Ty.size t ∧
+  Ty.app t.eraseNames = Ty.app t ∧ Ty.read t.eraseNames = Ty.read t
+
+def FieldsNameLaw (fs : Fields) : Prop :=
+  zeros (fieldsEraseNames fs) = zeros fs ∧ fieldsSize (fieldsEraseNames fs) = fieldsSize fs ∧
+  fieldsApp (fieldsEraseNames fs) = fieldsApp fs ∧ readField (fieldsEraseNames fs) = readField fs
+
+theorem nameLaw_leaf (t : Ty) (h : t.eraseNames = t) : NameLaw t := by
+  unfold NameLaw; rw [h]; exact ⟨rfl, rfl, rfl, rfl, rfl⟩
+
+theorem nameLaw_ptr (u : Ty) (ih : NameLaw u) : NameLaw (.ptr u) := by
+  obtain ⟨hw, hz, hs, ha, hr⟩ := ih
+  refine ⟨?_, ?_, ?_, ?_, ?_⟩
+  · simp only [Ty.eraseNames, Ty.wt, hw]
+  · simp only [Ty.eraseNames, Ty.zero]
+  · funext v tag
+    cases v with
+    | ptr o => cases o <;> simp only [Ty.eraseNames, Ty.size, hs]
+    | _ => simp only [Ty.eraseNames, Ty.size]
+  · funext v tag
+    cases v with
+    | ptr o => cases o <;> simp only [Ty.eraseNames, Ty.app, ha]
+    | _ => simp only [Ty.eraseNames, Ty.app]
+  · funext wt d p
+    simp only [Ty.eraseNames, Ty.read, hz, hr]
+
+theorem nameLaw_vslice (u : Ty) (ih : NameLaw u) : NameLaw (.vslice u) := by
+  obtain ⟨hw, hz, hs, ha, hr⟩ := ih
+  refine ⟨?_, ?_, ?_, ?_, ?_⟩
+  · simp only [Ty.eraseNames, Ty.wt]
+  · simp only [Ty.eraseNames, Ty.zero]
+  · funext v tag
+    cases v with
+    | slice vs => simp only [Ty.eraseNames, Ty.size, hs, hz]
+    | _ => simp only [Ty.eraseNames, Ty.size]
+  · funext v tag
+    cases v with
+    | slice vs => simp only [Ty.eraseNames, Ty.app, ha, hs, hz]
+    | _ => simp only [Ty.eraseNames, Ty.app]
+  · funext wt d p
+    simp only [Ty.eraseNames, Ty.read, hz, hr, hs, hw]
+
+theorem nameLaw_fslice (u : Ty) (ih : NameLaw u) : NameLaw (.fslice u) := by
+  obtain ⟨hw, hz, hs, ha, hr⟩ := ih
+  refine ⟨?_, ?_, ?_, ?_, ?_⟩
+  · simp only [Ty.eraseNames, Ty.wt]
+  · simp only [Ty.eraseNames, Ty.zero]
+  · funext v tag
+    cases v with
+    | slice vs => simp only [Ty.eraseNames, Ty.size, hs, hz]
+    | _ => simp only [Ty.eraseNames, Ty.size]
+  · funext v tag
+    cases v with
+    | slice vs => simp only [Ty.eraseNames, Ty.app, ha, hs, hz]
+    | _ => simp only [Ty.eraseNames, Ty.app]
+  · funext wt d p
+    simp only [Ty.eraseNames, Ty.read, hz, hr, hs, hw]
+
+theorem nameLaw_lslice (u : Ty) (ih : NameLaw u) : NameLaw (.lslice u) := by
+  obtain ⟨hw, hz, hs, ha, hr⟩ := ih
+  refine ⟨?_, ?_, ?_, ?_, ?_⟩
+  · simp only [Ty.eraseNames, Ty.wt]
+  · simp only [Ty.eraseNames, Ty.zero]
+  · funext v tag
+    cases v with
+    | slice vs => simp only [Ty.eraseNames, Ty.size, hs, hz]
+    | _ => simp only [Ty.eraseNames, Ty.size]
+  · funext v tag
+    cases v with
+    | slice vs => simp only [Ty.eraseNames, Ty.app, ha, hs, hz]
+    | _ => simp only [Ty.eraseNames, Ty.app]
+  · funext wt d p
+    simp only [Ty.eraseNames, Ty.read, hz, hr, hs, hw]
+
+theorem nameLaw_pslice (u : Ty) (ih : NameLaw u) : NameLaw (.pslice u) := by
+  obtain ⟨hw, hz, hs, ha, hr⟩ := ih
+  refine ⟨?_, ?_, ?_, ?_, ?_⟩
+  · simp only [Ty.eraseNames, Ty.wt]
+  · simp only [Ty.eraseNames, Ty.zero]
+  · funext v tag
+    cases v with
+    | slice vs => simp only [Ty.eraseNames, Ty.size, hs, hz]
+    | _ => simp only [Ty.eraseNames, Ty.size]
+  · funext v tag
+    cases v with
+    | slice vs => simp only [Ty.eraseNames, Ty.app, ha, hs, hz]
+    | _ => simp only [Ty.eraseNames, Ty.app]
+  · funext wt d p
+    simp only [Ty.eraseNames, Ty.read, hz, hr, hs, hw]
+
+theorem nameLaw_struct (n : String) (fs : Fields) (ih : FieldsNameLaw fs) : NameLaw (.struct n fs) := by
+  obtain ⟨hz, hs, ha, hr⟩ := ih
+  refine ⟨?_, ?_, ?_, ?_, ?_⟩
+  · simp only [Ty.eraseNames, Ty.wt]
+  · simp only [Ty.eraseNames, Ty.zero, hz]
+  · funext v tag
+    cases v with
+    | struct vs => simp only [Ty.eraseNames, Ty.size, hs]
+    | _ => simp only [Ty.eraseNames, Ty.size]
+  · funext v tag
+    cases v with
+    | struct vs => simp only [Ty.eraseNames, Ty.app, ha, hs]
+    | _ => simp only [Ty.eraseNames, Ty.app]
+  · funext wt d p
+    simp only [Ty.eraseNames, Ty.read, hz, hr]
+
+theorem nameLaw_map (k v : Ty) (p : Bool) (ihk : NameLaw k) (ihv : NameLaw v) : NameLaw (.map k v p) := by
+  obtain ⟨hkw, hkz, hks, hka, hkr⟩ := ihk
+  obtain ⟨hvw, hvz, hvs, hva, hvr⟩ := ihv
+  cases p with
+  | false =>
+    refine ⟨?_, ?_, ?_, ?_, ?_⟩
+    · simp only [Ty.eraseNames, Ty.wt]
+    · simp only [Ty.eraseNames, Ty.zero]
+    · funext x tag
+      cases x with
+      | map o => cases o <;> simp only [Ty.eraseNames, Ty.size, hks, hvs, hkw, hvw]
+      | _ => simp only [Ty.eraseNames, Ty.size]
+    · funext x tag
+      cases x with
+      | map o => cases o <;> simp only [Ty.eraseNames, Ty.app, hks, hvs, hka, hva, hkw, hvw]
+      | _ => simp only [Ty.eraseNames, Ty.app]
+    · funext wt d q
+      simp only [Ty.eraseNames, Ty.read, hkz, hvz, hkr, hvr]
+  | true =>
+    refine ⟨?_, ?_, ?_, ?_, ?_⟩
+    · simp only [Ty.eraseNames, Ty.wt]
+    · simp only [Ty.eraseNames, Ty.zero]
+    · funext x tag
+      cases x with
+      | map o => cases o <;> simp only [Ty.eraseNames, Ty.size, hks, hvs, hkw, hvw]
+      | _ => simp only [Ty.eraseNames, Ty.size]
+    · funext x tag
+      cases x with
+      | map o => cases o <;> simp only [Ty.eraseNames, Ty.app, hks, hvs, hka, hva, hkw, hvw]
+      | _ => simp only [Ty.eraseNames, Ty.app]
+    · funext wt d q
+      simp only [Ty.eraseNames, Ty.read, hkz, hvz, hkr, hvr]
+
+theorem fieldsNameLaw_nil : FieldsNameLaw [] := ⟨rfl, rfl, rfl, rfl⟩
+
+theorem fieldsNameLaw_cons (i : Nat) (n : String) (t : Ty) (r : Fields) (iht : NameLaw t)
+    (ihr : FieldsNameLaw r) : FieldsNameLaw ((i, n, t) :: r) := by
+  obtain ⟨hw, hz, hs, ha, hr⟩ := iht
+  obtain ⟨hfz, hfs, hfa, hfr⟩ := ihr
+  refine ⟨?_, ?_, ?_, ?_⟩
+  · simp only [fieldsEraseNames, zeros, hz, hfz]
+  · funext vs
+    cases vs with
+    | nil => simp only [fieldsEraseNames, fieldsSize]
+    | cons v vs => simp only [fieldsEraseNames, fieldsSize, hs, hw, hfs]
+  · funext vs
+    cases vs with
+    | nil => simp only [fieldsEraseNames, fieldsApp]
+    | cons v vs => simp only [fieldsEraseNames, fieldsApp, ha, hw, hfa]
+  · funext acc idx wt body
+    cases acc with
+    | nil => simp only [fieldsEraseNames, readField]
+    | cons a as => simp only [fieldsEraseNames, readField, hr, hfr]
+
+mutual
+theorem nameLaw_ty : (t : Ty) → NameLaw t
+  | .bool => nameLaw_leaf _ rfl
+  | .int _ => nameLaw_leaf _ rfl
+  | .uint _ => nameLaw_leaf _ rfl
+  | .flat _ => nameLaw_leaf _ rfl
+  | .f32 => nameLaw_leaf _ rfl
+  | .f64 => nameLaw_leaf _ rfl
+  | .str _ => nameLaw_leaf _ rfl
+  | .bytes => nameLaw_leaf _ rfl
+  | .time _ => nameLaw_leaf _ rfl
+  | .ptr u => nameLaw_ptr u (nameLaw_ty u)
+  | .vslice u => nameLaw_vslice u (nameLaw_ty u)
+  | .fslice u => nameLaw_fslice u (nameLaw_ty u)
+  | .lslice u => nameLaw_lslice u (nameLaw_ty u)
+  | .pslice u => nameLaw_pslice u (nameLaw_ty u)
+  | .struct n fs => nameLaw_struct n fs (nameLaw_fields fs)
+  | .map k v p => nameLaw_map k v p (nameLaw_ty k) (nameLaw_ty v)
+theorem nameLaw_fields : (fs : Fields) → FieldsNameLaw fs
+  | [] => fieldsNameLaw_nil
+  | (i, n, t) :: r => fieldsNameLaw_cons i n t r (nameLaw_ty t) (nameLaw_fields r)
+end
+
+theorem marshal_eraseNames (t : Ty) (v : Val) : marshal t.eraseNames v = marshal t v := by
+  simp only [marshal, (nameLaw_ty t).2.2.2.1]
+
+theorem unmarshal_eraseNames (t : Ty) (d : Bytes) (p : Val) : unmarshal t.eraseNames d p = unmarshal t d p := by
+  simp only [unmarshal, (nameLaw_ty t).2.2.2.2, (nameLaw_ty t).1]
+
+/-- two codec trees that differ only in field / struct names encode and decode
+identically. -/
+theorem rename_invisible (t1 t2 : Ty) (h : t1.eraseNames = t2.eraseNames) :
+    Ty.wt t1 = Ty.wt t2 ∧ Ty.zero t1 = Ty.zero t2 ∧ Ty.size t1 = Ty.size t2 ∧ Ty.app t1 = Ty.app t2 ∧
+      Ty.read t1 = Ty.read t2 ∧ marshal t1 = marshal t2 ∧ unmarshal t1 = unmarshal t2 := by
+  obtain ⟨a1, a2, a3, a4, a5⟩ := nameLaw_ty t1
+  obtain ⟨b1, b2, b3, b4, b5⟩ := nameLaw_ty t2
+  rw [h] at a1 a2 a3 a4 a5
+  refine ⟨a1.symm.trans b1, a2.symm.trans b2, a3.symm.trans b3, a4.symm.trans b4, a5.symm.trans b5, ?_, ?_⟩
+  · funext v
+    rw [← marshal_eraseNames t1, ← marshal_eraseNames t2, h]
+  · funext d p
+    rw [← unmarshal_eraseNames t1, ← unmarshal_eraseNames t2, h]
+
+/-! ### 10. reading `project` -/
+
+theorem projectWith_getElem? (look : Nat → Ty → Option Val) :
+    ∀ (fs' : Fields) (ps : List Val) (j : Nat) (f' : Nat × String × Ty) (p : Val),
+      fs'[j]? = some f' → ps[j]? = some p →
+      (projectWith look fs' ps)[j]? = some ((look f'.1 f'.2.2).getD p) := by
+  intro fs'
+  induction fs' with
+  | nil => intro ps j f' p h; simp at h
+  | cons g fs' ih =>
+    obtain ⟨i', n', t'⟩ := g
+    intro ps j f' p h1 h2
+    cases ps with
+    | nil => simp at h2
+    | cons q ps =>
+      cases j with
+      | zero =>
+        simp only [List.getElem?_cons_zero, Option.some.injEq] at h1 h2
+        subst h1; subst h2
+        simp [projectWith]
+      | succ j =>
+        simp only [List.getElem?_cons_succ] at h1 h2
+        simp only [projectWith, List.getElem?_cons_succ]
+        exact ih ps j f' p h1 h2
+
+theorem projectWith_length (look : Nat → Ty → Option Val) :
+    ∀ (fs' : Fields) (ps : List Val), ps.length = fs'.length → (projectWith look fs' ps).length = fs'.length := by
+  intro fs'
+  induction fs' with
+  | nil => intro ps _; cases ps <;> simp [projectWith]
+  | cons g fs' ih =>
+    obtain ⟨i', n', t'⟩ := g
+    intro ps h
+    cases ps with
+    | nil => simp at h
+    | cons q ps => simp [projectWith, ih ps (by simpa using h)]
+
+theorem lookupWith_getElem? (pr : Ty → Ty → Val → Val) (t' : Ty) :
+    ∀ (gs : Fields) (vs : List Val) (k : Nat) (f : Nat × String × Ty) (v : Val),
+      (gs.map (·.1)).Nodup → gs[k]? = some f → vs[k]? = some v →
+      lookupWith pr gs vs f.1 t' = if v.omit = false then some (pr f.2.2 t' v) else none := by
+  intro gs
+  induction gs with
+  | nil => intro vs k f v _ h; simp at h
+  | cons g gs ih =>
+    obtain ⟨i, n, t⟩ := g
+    intro vs k f v hnd h1 h2
+    simp only [List.map_cons] at hnd
+    obtain ⟨hni, hnd'⟩ := List.nodup_cons.mp hnd
+    cases vs with
+    | nil => simp at h2
+    | cons w vs =>
+      cases k with
+      | zero =>
+        simp only [List.getElem?_cons_zero, Option.some.injEq] at h1 h2
+        subst h1; subst h2
+        cases ho : w.omit with
+        | false => simp [lookupWith, ho]
+        | true =>
+          simp only [lookupWith, ho, Bool.true_eq_false, and_false, ↓reduceIte]
+          exact lookupWith_none pr gs vs i t' hni
+      | succ k =>
+        simp only [List.getElem?_cons_succ] at h1 h2
+        have hmem : f ∈ gs := List.mem_of_getElem? h1
+        have hne : ¬ i = f.1 := by
+          intro e; apply hni; rw [e]; exact List.mem_map.mpr ⟨f, hmem, rfl⟩
+        rw [lookupWith_ne pr i n t gs w vs f.1 t' hne]
+        exact ih vs k f v hnd' h1 h2
+
+/-- **shared index**: the target field at position `j` has the index of the
+source field at position `k`: it receives the decoded value when the source
+value is on the wire, and keeps its prior value when the writer omitted it. -/
+theorem project_shared (fs fs' : Fields) (vs prior : List Val) (hnd : (fs.map (·.1)).Nodup)
+    (j k : Nat) (f f' : Nat × String × Ty) (v p : Val)
+    (hf : fs[k]? = some f) (hv : vs[k]? = some v) (hf' : fs'[j]? = some f') (hp : prior[j]? = some p)
+    (hidx : f'.1 = f.1) :
+    (project fs fs' vs prior)[j]? = some (if v.omit = false then f.2.2.proj f'.2.2 v else p) := by
+  rw [project, fieldsProj_eq', projectWith_getElem? _ fs' prior j f' p hf' hp, hidx,
+    lookupWith_getElem? Ty.proj f'.2.2 fs vs k f v hnd hf hv]
+  cases v.omit <;> simp
+
+/-- **fresh index**: a target field whose index the source does not have keeps
+its prior value. -/
+theorem project_fresh (fs fs' : Fields) (vs prior : List Val)
+    (j : Nat) (f' : Nat × String × Ty) (p : Val)
+    (hf' : fs'[j]? = some f') (hp : prior[j]? = some p) (hfresh : f'.1 ∉ fs.map (·.1)) :
+    (project fs fs' vs prior)[j]? = some p := by
+  rw [project, fieldsProj_eq', projectWith_getElem? _ fs' prior j f' p hf' hp,
+    lookupWith_none Ty.proj fs vs f'.1 f'.2.2 hfresh]
+  rfl
+
+theorem project_length (fs fs' : Fields) (vs prior : List Val) (h : prior.length = fs'.length) :
+    (project fs fs' vs prior).length = fs'.length :=
+  projectWith_length _ fs' prior h
+
+theorem projectTop_shared (fs fs' : Fields) (vs prior : List Val) (hnd : (fs.map (·.1)).Nodup)
+    (j k : Nat) (f f' : Nat × String × Ty) (v p : Val)
+    (hf : fs[k]? = some f) (hv : vs[k]? = some v) (hf' : fs'[j]? = some f') (hp : prior[j]? = some p)
+    (hidx : f'.1 = f.1) :
+    (projectTop fs fs' vs prior)[j]? = some (if v.omit = false then f.2.2.norm v else p) := by
+  rw [projectTop, projectWith_getElem? _ fs' prior j f' p hf' hp, hidx,
+    lookupWith_getElem? _ f'.2.2 fs vs k f v hnd hf hv]
+  cases v.omit <;> simp
+
+theorem projectTop_fresh (fs fs' : Fields) (vs prior : List Val)
+    (j : Nat) (f' : Nat × String × Ty) (p : Val)
+    (hf' : fs'[j]? = some f') (hp : prior[j]? = some p) (hfresh : f'.1 ∉ fs.map (·.1)) :
+    (projectTop fs fs' vs prior)[j]? = some p := by
+  rw [projectTop, projectWith_getElem? _ fs' prior j f' p hf' hp,
+    lookupWith_none _ fs vs f'.1 f'.2.2 hfresh]
+  rfl
+
+/-! ### 11. consistency with C01: the identity evolution is the round trip -/
+
+theorem zeros_getElem? : ∀ (fs : Fields) (k : Nat) (f : Nat × String × Ty), fs[k]? = some f →
+    (zeros fs)[k]? = some f.2.2.zero := by
+  intro fs
+  induction fs with
+  | nil => intro k f h; simp at h
+  | cons g fs ih =>
+    obtain ⟨i, n, t⟩ := g
+    intro k f h
+    cases k with
+    | zero => simp only [List.getElem?_cons_zero, Option.some.injEq] at h; subst h; simp [zeros]
+    | succ k => simp only [List.getElem?_cons_succ] at h; simp only [zeros, List.getElem?_cons_succ]; exact ih k f h
+
+theorem fieldsNorm_getElem? : ∀ (fs : Fields) (vs : List Val) (k : Nat) (f : Nat × String × Ty) (v : Val),
+    fs[k]? = some f → vs[k]? = some v →
+    (fieldsNorm fs vs)[k]? = some (if v.omit then f.2.2.zero else f.2.2.norm v) := by
+  intro fs
+  induction fs with
+  | nil => intro vs k f v h; simp at h
+  | cons g fs ih =>
+    obtain ⟨i, n, t⟩ := g
+    intro vs k f v h1 h2
+    cases vs with
+    | nil => simp at h2
+    | cons w vs =>
+      cases k with
+      | zero =>
+        simp only [List.getElem?_cons_zero, Option.some.injEq] at h1 h2
+        subst h1; subst h2; simp [fieldsNorm]
+      | succ k =>
+        simp only [List.getElem?_cons_succ] at h1 h2
+        simp only [fieldsNorm, List.getElem?_cons_succ]
+        exact ih vs k f v h1 h2
+
+theorem fieldsNorm_length : ∀ (fs : Fields) (vs : List Val), fieldsHaveTy fs vs →
+    (fieldsNorm fs vs).length = fs.length ∧ vs.length = fs.length := by
+  intro fs
+  induction fs with
+  | nil => intro vs h; cases vs <;> simp_all [fieldsNorm, fieldsHaveTy]
+  | cons g fs ih =>
+    obtain ⟨i, n, t⟩ := g
+    intro vs h
+    cases vs with
+    | nil => simp [fieldsHaveTy] at h
+    | cons w vs =>
+      simp only [fieldsHaveTy] at h
+      have := ih vs h.2
+      simp [fieldsNorm, this.1, this.2]
+
+theorem zeros_length : ∀ (fs : Fields), (zeros fs).length = fs.length := by
+  intro fs
+  induction fs with
+  | nil => rfl
+  | cons g fs ih => obtain ⟨i, n, t⟩ := g; simp [zeros, ih]
+
+theorem fieldsHaveTy_getElem? : ∀ (fs : Fields) (vs : List Val), fieldsHaveTy fs vs →
+    ∀ (k : Nat) (f : Nat × String × Ty) (v : Val), fs[k]? = some f → vs[k]? = some v → f.2.2.hasTy v := by
+  intro fs
+  induction fs with
+  | nil => intro vs _ k f v h; simp at h
+  | cons g fs ih =>
+    obtain ⟨i, n, t⟩ := g
+    intro vs hty k f v h1 h2
+    cases vs with
+    | nil => simp at h2
+    | cons w vs =>
+      simp only [fieldsHaveTy] at hty
+      cases k with
+      | zero =>
+        simp only [List.getElem?_cons_zero, Option.some.injEq] at h1 h2
+        subst h1; subst h2; exact hty.1
+      | succ k =>
+        simp only [List.getElem?_cons_succ] at h1 h2
+        exact ih vs hty.2 k f v h1 h2
+
+/-- decoding a struct into its own type: the projection onto zeros is `fieldsNorm`. -/
+theorem projectWith_self (pr : Ty → Ty → Val → Val) (fs : Fields) (vs : List Val)
+    (hnd : (fs.map (·.1)).Nodup) (hty : fieldsHaveTy fs vs)
+    (hpr : ∀ f ∈ fs, ∀ v, f.2.2.hasTy v → pr f.2.2 f.2.2 v = f.2.2.norm v) :
+    projectWith (lookupWith pr fs vs) fs (zeros fs) = fieldsNorm fs vs := by
+  have hlen := fieldsNorm_length fs vs hty
+  apply List.ext_getElem?
+  intro k
+  by_cases hk : k < fs.length
+  · have hf : fs[k]? = some fs[k] := List.getElem?_eq_getElem hk
+    have hv : vs[k]? = some (vs[k]'(by omega)) := List.getElem?_eq_getElem (by omega)
+    rw [projectWith_getElem? _ fs (zeros fs) k _ _ hf (zeros_getElem? fs k _ hf),
+      lookupWith_getElem? pr _ fs vs k _ _ hnd hf hv, fieldsNorm_getElem? fs vs k _ _ hf hv]
+    have := hpr fs[k] (List.getElem_mem hk) _ (fieldsHaveTy_getElem? fs vs hty k _ _ hf hv)
+    cases ho : (vs[k]'(by omega)).omit <;> simp [this]
+  · have h1 : (projectWith (lookupWith pr fs vs) fs (zeros fs)).length ≤ k := by
+      rw [projectWith_length _ fs _ (zeros_length fs)]; omega
+    have h2 : (fieldsNorm fs vs).length ≤ k := by omega
+    rw [List.getElem?_eq_none h1, List.getElem?_eq_none h2]
+
+theorem elemProj_self (u : Ty) (x : Val) (h : u.proj u x = u.norm x) : elemProj u u x = elemNorm u x := by
+  by_cases hx : x = .ptr none
+  · subst hx
+    cases u <;> first | rfl | (simp only [elemProj, elemNorm]; exact h)
+  · rw [elemProj_present u u x hx, elemNorm_present u x hx, h]
+
+/-- the induction predicate: projecting a codec onto itself is the normalisation. -/
+def PS (t : Ty) : Prop := t.wf → ∀ v, t.hasTy v → t.proj t v = t.norm v
+
+theorem ps_ptr (u : Ty) (ih : PS u) : PS (.ptr u) := by
+  intro hwf v hty
+  simp only [Ty.wf] at hwf
+  cases v with
+  | ptr o =>
+    cases o with
+    | none => simp only [Ty.proj]
+    | some x =>
+      simp only [Ty.hasTy] at hty
+      simp only [Ty.proj, Ty.norm, ih hwf.1 x hty]
+  | _ => simp [Ty.hasTy] at hty
+
+theorem ps_lslice (u : Ty) (ih : PS u) : PS (.lslice u) := by
+  intro hwf v hty
+  simp only [Ty.wf] at hwf
+  cases v with
+  | slice vs =>
+    simp only [Ty.hasTy] at hty
+    rw [proj_lslice, norm_lslice]
+    congr 1
+    apply List.map_congr_left
+    intro x hx
+    exact elemProj_self u x (ih hwf.1 x (hty x hx))
+  | _ => simp [Ty.hasTy] at hty
+
+theorem ps_pslice (u : Ty) (ih : PS u) : PS (.pslice u) := by
+  intro hwf v hty
+  simp only [Ty.wf] at hwf
+  cases v with
+  | slice vs =>
+    simp only [Ty.hasTy] at hty
+    rw [proj_pslice, norm_pslice]
+    congr 1
+    apply List.map_congr_left
+    intro x hx
+    exact elemProj_self u x (ih hwf.1 x (hty x hx))
+  | _ => simp [Ty.hasTy] at hty
+
+theorem ps_struct (n : String) (fs : Fields) (ih : ∀ f ∈ fs, PS f.2.2) : PS (.struct n fs) := by
+  intro hwf v hty
+  simp only [Ty.wf] at hwf
+  cases v with
+  | struct vs =>
+    simp only [Ty.hasTy] at hty
+    simp only [Ty.proj, Ty.norm, fieldsProj_eq']
+    rw [projectWith_self Ty.proj fs vs hwf.1 hty
+      (fun f hf v hv => ih f hf (fieldsWf_mem fs hwf.2.2 f hf) v hv)]
+  | _ => simp [Ty.hasTy] at hty
+
+theorem ps_map (k v : Ty) (p : Bool) (ihv : PS v) : PS (.map k v p) := by
+  intro hwf x hty
+  simp only [Ty.wf] at hwf
+  cases x with
+  | map o =>
+    cases o with
+    | none => simp only [Ty.proj]
+    | some es =>
+      simp only [Ty.hasTy] at hty
+      rw [proj_map, norm_map]
+      have : es.map (entryProj k v v) = es.map (entryNorm k v) := by
+        apply List.map_congr_left
+        intro e he
+        simp only [entryProj, entryNorm, ihv hwf.2.1 e.2 (hty.1 e he).2]
+      rw [this]
+  | _ => simp [Ty.hasTy] at hty
+
+mutual
+theorem ps_ty : (t : Ty) → PS t
+  | .bool => fun _ _ _ => by simp only [Ty.proj]
+  | .int _ => fun _ _ _ => by simp only [Ty.proj]
+  | .uint _ => fun _ _ _ => by simp only [Ty.proj]
+  | .flat _ => fun _ _ _ => by simp only [Ty.proj]
+  | .f32 => fun _ _ _ => by simp only [Ty.proj]
+  | .f64 => fun _ _ _ => by simp only [Ty.proj]
+  | .str _ => fun _ _ _ => by simp only [Ty.proj]
+  | .bytes => fun _ _ _ => by simp only [Ty.proj]
+  | .time _ => fun _ _ _ => by simp only [Ty.proj]
+  | .vslice _ => fun _ _ _ => by simp only [Ty.proj]
+  | .fslice _ => fun _ _ _ => by simp only [Ty.proj]
+  | .ptr u => ps_ptr u (ps_ty u)
+  | .lslice u => ps_lslice u (ps_ty u)
+  | .pslice u => ps_pslice u (ps_ty u)
+  | .struct n fs => ps_struct n fs (ps_fields fs)
+  | .map k v p => ps_map k v p (ps_ty v)
+theorem ps_fields : (fs : Fields) → ∀ f ∈ fs, PS f.2.2
+  | [] => by intro f hf; simp at hf
+  | (_, _, t) :: r => by
+      intro f hf
+      rcases List.mem_cons.mp hf with rfl | hf
+      · exact ps_ty t
+      · exact ps_fields r f hf
+end
+
+/-- projecting onto the same type is the documented normalisation of C01. -/
+theorem proj_self (t : Ty) (v : Val) (hwf : t.wf) (hty : t.hasTy v) : t.proj t v = t.norm v :=
+  ps_ty t hwf v hty
+
+theorem project_self (n : String) (fs : Fields) (vs : List Val) (hwf : (Ty.struct n fs).wf)
+    (hty : (Ty.struct n fs).hasTy (.struct vs)) : project fs fs vs (zeros fs) = fieldsNorm fs vs := by
+  have := proj_self (.struct n fs) (.struct vs) hwf hty
+  simpa only [Ty.proj, Ty.norm, Val.struct.injEq, project] using this
+
+theorem nodup_idx_inj : ∀ (fs : Fields), (fs.map (·.1)).Nodup → ∀ g ∈ fs, ∀ f ∈ fs, g.1 = f.1 → g = f := by
+  intro fs
+  induction fs with
+  | nil => intro _ g hg; simp at hg
+  | cons a fs ih =>
+    intro hnd g hg f hf he
+    simp only [List.map_cons] at hnd
+    obtain ⟨hni, hnd'⟩ := List.nodup_cons.mp hnd
+    rcases List.mem_cons.mp hg with hga | hg'
+    · rcases List.mem_cons.mp hf with hfa | hf'
+      · rw [hga, hfa]
+      · exfalso; apply hni; rw [← hga, he]; exact List.mem_map.mpr ⟨f, hf', rfl⟩
+    · rcases List.mem_cons.mp hf with hfa | hf'
+      · exfalso; apply hni; rw [← hfa, ← he]; exact List.mem_map.mpr ⟨g, hg', rfl⟩
+      · exact ih hnd' g hg' f hf' he
+
+theorem fieldEvolves_of_mem : ∀ (fs : Fields) (i' : Nat) (t' : Ty),
+    (∀ f ∈ fs, f.1 = i' → f.2.2.Evolves t') → fieldEvolves fs i' t' := by
+  intro fs
+  induction fs with
+  | nil => intro i' t' _; simp [fieldEvolves]
+  | cons g fs ih =>
+    obtain ⟨j, nj, tj⟩ := g
+    intro i' t' h
+    simp only [fieldEvolves]
+    exact ⟨fun e => h (j, nj, tj) (by simp) e, ih i' t' (fun f hf => h f (by simp [hf]))⟩
+
+/-- every accepted type evolves into itself (the empty edit). -/
+def ER (t : Ty) : Prop := t.wf → t.Evolves t
+
+theorem er_struct (n : String) (fs : Fields) (ih : ∀ f ∈ fs, ER f.2.2) : ER (.struct n fs) := by
+  intro hwf
+  simp only [Ty.wf] at hwf
+  simp only [Ty.Evolves]
+  intro f' hf'
+  apply fieldEvolves_of_mem
+  intro g hg he
+  have := nodup_idx_inj fs hwf.1 g hg f' hf' he
+  subst this
+  exact ih g hg (fieldsWf_mem fs hwf.2.2 g hg)
+
+mutual
+theorem er_ty : (t : Ty) → ER t
+  | .bool => fun _ => by simp only [Ty.Evolves]
+  | .int _ => fun _ => by simp only [Ty.Evolves]
+  | .uint _ => fun _ => by simp only [Ty.Evolves]
+  | .flat _ => fun _ => by simp only [Ty.Evolves]
+  | .f32 => fun _ => by simp only [Ty.Evolves]
+  | .f64 => fun _ => by simp only [Ty.Evolves]
+  | .str _ => fun _ => by simp only [Ty.Evolves]
+  | .bytes => fun _ => by simp only [Ty.Evolves]
+  | .time _ => fun _ => by simp only [Ty.Evolves]
+  | .vslice _ => fun _ => by simp only [Ty.Evolves]
+  | .fslice _ => fun _ => by simp only [Ty.Evolves]
+  | .ptr u => fun hwf => by simp only [Ty.wf] at hwf; simp only [Ty.Evolves]; exact er_ty u hwf.1
+  | .lslice u => fun hwf => by simp only [Ty.wf] at hwf; simp only [Ty.Evolves]; exact er_ty u hwf.1
+  | .pslice u => fun hwf => by simp only [Ty.wf] at hwf; simp only [Ty.Evolves]; exact er_ty u hwf.1
+  | .struct n fs => er_struct n fs (er_fields fs)
+  | .map k v p => fun hwf => by
+      simp only [Ty.wf] at hwf; simp only [Ty.Evolves, true_and]; exact er_ty v hwf.2.1
+theorem er_fields : (fs : Fields) → ∀ f ∈ fs, ER f.2.2
+  | [] => by intro f hf; simp at hf
+  | (_, _, t) :: r => by
+      intro f hf
+      rcases List.mem_cons.mp hf with rfl | hf
+      · exact er_ty t
+      · exact er_fields r f hf
+end
+
+theorem evolves_refl (t : Ty) (hwf : t.wf) : t.Evolves t := er_ty t hwf
+
+/-- consistency: decoding into the unchanged type from zeros is the C01 round trip
+(`project … = fieldsNorm`), obtained here from the evolution theorem. -/
+theorem identity_is_roundtrip (n : String) (fs : Fields) (vs : List Val)
+    (hwf : (Ty.struct n fs).wf) (hshape : Ty.rtShape false (.struct n fs))
+    (hty : (Ty.struct n fs).hasTy (.struct vs))
+    (hsz : (marshal (.struct n fs) (.struct vs)).length < 2 ^ 63) :
+    (Ty.struct n fs).read .len (marshal (.struct n fs) (.struct vs)) (.struct (zeros fs))
+      = .ok (.struct (fieldsNorm fs vs), (marshal (.struct n fs) (.struct vs)).length) := by
+  rw [← project_self n fs vs hwf hty]
+  exact decode_evolved_consumed n n fs fs vs (zeros fs) hwf hwf (evolves_refl _ hwf) hshape hty hsz
+    (priorFitsWith_zeros _ fs)
 
 end Evolve
